@@ -1,11 +1,16 @@
 //! C18 Box language: print/parse round trip of every expressible list, formatter
 //! idempotence, parser totality.
 //!
-//! Three generated sub-checks plus one calibration list:
-//!   * `goldens`           repository Box-language texts (seeds): parse, print, reparse, format.
+//! Sub-checks:
+//!   * `goldens`           repository Box-language texts (seeds) and texts whose meaning / explicit CST the
+//!                         repository's documentation and tests state: parse, print, reparse, format.
+//!   * `scale_probes`      long runs and deep nesting (texts up to ~1.5 MB) on an ordinary 8 MiB stack, each
+//!                         in a child process (a stack overflow aborts the process and cannot be caught).
 //!   * `roundtrip`         mirror trees -> ds lists -> text (three print paths) -> parse -> equal.
-//!   * `format_idempotent` styled sources rendered by this file from mirror trees.
-//!   * `parser_total`      arbitrary / mutated text: Ok or located errors, never a panic.
+//!   * `format_idempotent` styled sources rendered by this file from mirror trees, with the list AND the
+//!                         explicit CST (comment attribution) they must yield.
+//!   * `parser_total`      arbitrary / mutated text: Ok or located errors, never a panic; every list a text
+//!                         parses to is printed and parsed back.
 //!
 //! Equality is checked twice: with the library's `PartialEq` (what `assert_box_eq!` uses) and
 //! strictly on the mirror type, where a glue ratio is compared as an exact rational.
@@ -362,9 +367,12 @@ pub struct Stats {
     pub kinds: u32,
     /// finite-order dimension with |v| > 2^30-1, or an infinite-order component equal to -2^31
     pub dim_out_of_lang_range: bool,
-    /// an integer field equal to -2^31 (outside the documented integer range)
+    /// how many such values the tree holds
+    pub n_dim_out: usize,
+    /// an integer field equal to -2^31 (the lexer accepts `-2147483648`)
     pub int_min: bool,
-    pub font_out_of_range: bool,
+    /// a font number, replace_count or float_penalty >= 2^31 (written as a negative integer)
+    pub uint_ge_2p31: bool,
     pub ratio_exact: usize,
     pub ratio_inexact: usize,
     pub ratio_negative: usize,
@@ -403,12 +411,15 @@ impl Stats {
         self.font(font);
     }
     fn font(&mut self, f: u32) {
-        self.limit_value |= f == i32::MAX as u32;
-        self.font_out_of_range |= f > i32::MAX as u32;
+        self.limit_value |= f == i32::MAX as u32 || f == u32::MAX || f == 1u32 << 31;
+        self.uint_ge_2p31 |= f > i32::MAX as u32;
     }
     fn dim(&mut self, v: i32) {
         self.limit_value |= v == M30 || v == -M30 || v == i32::MAX || v == -i32::MAX || v == i32::MIN;
         self.dim_out_of_lang_range |= v > M30 || v < -M30;
+        if v > M30 || v < -M30 {
+            self.n_dim_out += 1;
+        }
     }
     fn comp(&mut self, v: i32, order: u8) {
         self.orders[(order % 4) as usize] = true;
@@ -417,6 +428,9 @@ impl Stats {
         } else {
             self.limit_value |= v == i32::MAX || v == -i32::MAX || v == i32::MIN || v == M30 || v == -M30;
             self.dim_out_of_lang_range |= v == i32::MIN;
+            if v == i32::MIN {
+                self.n_dim_out += 1;
+            }
         }
     }
     fn int(&mut self, v: i32) {
@@ -424,10 +438,10 @@ impl Stats {
         self.int_min |= v == i32::MIN;
     }
     fn uint(&mut self, v: u32) {
-        self.limit_value |= v == i32::MAX as u32;
-        // u32 values >= 2^31 are printed through `as i32`; 2^31 itself prints as -2^31.
+        self.limit_value |= v == i32::MAX as u32 || v == u32::MAX || v == 1u32 << 31;
+        // u32 values >= 2^31 are written as negative integers; 2^31 itself as -2147483648.
         self.int_min |= v == 1u32 << 31;
-        self.font_out_of_range |= v > i32::MAX as u32;
+        self.uint_ge_2p31 |= v > i32::MAX as u32;
     }
     fn glue(&mut self, g: &GlueSpec) {
         self.dim(g.w);
@@ -649,41 +663,6 @@ pub struct Deviations {
     pub glue_ratio_f32_precision: bool,
 }
 
-pub const FLAG_SIGN: &str = "flag:glue_ratio_sign_lost";
-pub const FLAG_F32: &str = "flag:glue_ratio_f32_precision";
-pub const FLAG_R16384: &str = "flag:glue_ratio_ge_16384_unparseable";
-pub const FLAG_FORMAT_ERRS: &str = "flag:format_ignores_syntax_errors";
-pub const FLAG_U_ESCAPE: &str = "flag:lexer_u_escape_without_brace";
-
-/// The text contains a `\u` escape that is not of the form `\u{<hex digits>}`: not followed by
-/// `{` (the lexer then swallows one character without accounting for it), or with anything but hex
-/// digits before the closing `}` (the lexer reads on to the next `}`, across the closing quote,
-/// while the bracket pre-scan stops at the quote). Every later position is unreliable.
-pub fn has_u_escape_without_brace(text: &str) -> bool {
-    let cs: Vec<char> = text.chars().collect();
-    let mut i = 0;
-    while i < cs.len() {
-        if cs[i] == '\\' {
-            if cs.get(i + 1) == Some(&'u') {
-                if cs.get(i + 2) != Some(&'{') {
-                    return true;
-                }
-                let mut j = i + 3;
-                while j < cs.len() && cs[j].is_ascii_hexdigit() {
-                    j += 1;
-                }
-                if cs.get(j) != Some(&'}') {
-                    return true;
-                }
-            }
-            i += 2;
-        } else {
-            i += 1;
-        }
-    }
-    false
-}
-
 /// What the glue ratio num/den must read back as (in units of 2^-16) after print+parse.
 /// * expressible exactly (k/65536): exactly k — the language can express it, so it must survive;
 /// * otherwise the nearest value a single-precision printer yields, with the sign kept.
@@ -802,21 +781,22 @@ pub fn norm_sig(p: &PanicInfo) -> String {
     format!("panic:{}:{}", f, m.trim_end())
 }
 
-/// Runs code under test. A panic becomes `Known(sig)` when `allow_known` and the signature is
-/// listed for C18, otherwise `Fail`.
-fn guard<R>(ctx: &Ctx, what: &str, shown: &str, allow_known: bool, f: impl FnOnce() -> R) -> Result<R, Verdict> {
+/// Runs code under test. A panic is a violation unless its (normalised) signature is a listed
+/// known finding of C18 (none is listed today; the path exists so that a finding can be listed).
+fn guard<R>(ctx: &Ctx, what: &str, shown: &str, f: impl FnOnce() -> R) -> Result<R, Verdict> {
+    guard_lazy(ctx, what, || shown.to_string(), f)
+}
+
+/// `guard` with the rendering of the input computed only when it is needed.
+fn guard_lazy<R>(ctx: &Ctx, what: &str, shown: impl FnOnce() -> String, f: impl FnOnce() -> R) -> Result<R, Verdict> {
     match panics::catch(f) {
         Ok(r) => Ok(r),
         Err(p) => {
             let sig = norm_sig(&p);
-            let slicing = p.message.contains("is not a char boundary") || p.message.contains("when slicing") || p.message.contains("out of range for");
-            if allow_known && ctx.known(&sig) {
+            if ctx.known(&sig) {
                 Err(Verdict::Known(sig))
-            } else if allow_known && slicing && has_u_escape_without_brace(shown) && ctx.known(FLAG_U_ESCAPE) {
-                // one root cause, many panic sites: positions are unreliable after `\u` + non-`{`
-                Err(Verdict::Known(FLAG_U_ESCAPE.into()))
             } else {
-                Err(Verdict::Fail(format!("panic in {what} at {}: {}\n  signature: {sig}\n  input: {}", p.site(), p.message, clip(shown, 1500))))
+                Err(Verdict::Fail(format!("panic in {what} at {}: {}\n  signature: {sig}\n  input: {}", p.site(), p.message, clip(&shown(), 1500))))
             }
         }
     }
@@ -863,19 +843,26 @@ pub fn print_v_display(list: &[ds::Vertical]) -> String {
 /// Outcome of a parse, detached from the source's lifetime.
 pub enum Parsed<L> {
     Ok(L),
-    /// number of errors, rendering of the first few
-    Errs(usize, String),
+    /// number of errors, rendering of the first few, and how often each message occurs
+    Errs(usize, String, Vec<(String, usize)>),
     /// `Err` with an empty list, or an error whose span is not inside the source
     Bad(String),
 }
 
-fn check_errors(src: &str, errs: &[lang::Error<'_>]) -> Result<(usize, String), String> {
+fn check_errors(src: &str, errs: &[lang::Error<'_>]) -> Result<(usize, String, Vec<(String, usize)>), String> {
     if errs.is_empty() {
         return Err("Err(..) with an empty error list".into());
     }
     let mut shown = String::new();
+    let mut kinds: std::collections::BTreeMap<String, usize> = Default::default();
     for (i, e) in errs.iter().enumerate() {
         let msg = e.message();
+        match kinds.get_mut(&msg) {
+            Some(n) => *n += 1,
+            None => {
+                kinds.insert(msg.clone(), 1);
+            }
+        }
         let _ = e.notes();
         if msg.is_empty() {
             return Err(format!("error #{i} has an empty message: {e:?}"));
@@ -897,14 +884,14 @@ fn check_errors(src: &str, errs: &[lang::Error<'_>]) -> Result<(usize, String), 
             let _ = write!(shown, "[{}] ", msg);
         }
     }
-    Ok((errs.len(), shown))
+    Ok((errs.len(), shown, kinds.into_iter().collect()))
 }
 
 pub fn parse_h(src: &str) -> Parsed<Vec<ds::Horizontal>> {
     match lang::parse_horizontal_list(src) {
         Ok(l) => Parsed::Ok(l),
         Err(errs) => match check_errors(src, &errs) {
-            Ok((n, s)) => Parsed::Errs(n, s),
+            Ok((n, s, k)) => Parsed::Errs(n, s, k),
             Err(m) => Parsed::Bad(m),
         },
     }
@@ -917,7 +904,7 @@ pub fn parse_v(src: &str) -> Parsed<Vec<ds::Vertical>> {
     match errs.check() {
         Ok(()) => Parsed::Ok(v.to_boxworks()),
         Err(errs) => match check_errors(src, &errs) {
-            Ok((n, s)) => Parsed::Errs(n, s),
+            Ok((n, s, k)) => Parsed::Errs(n, s, k),
             Err(m) => Parsed::Bad(m),
         },
     }
@@ -927,34 +914,47 @@ pub fn format_src(src: &str) -> Parsed<String> {
     match lang::format(src) {
         Ok(s) => Parsed::Ok(s),
         Err(errs) => match check_errors(src, &errs) {
-            Ok((n, s)) => Parsed::Errs(n, s),
+            Ok((n, s, k)) => Parsed::Errs(n, s, k),
             Err(m) => Parsed::Bad(m),
         },
     }
 }
 
+/// Why a text did not parse.
+pub struct ParseFail {
+    pub text: String,
+    /// message -> number of errors with that message (empty for non-error failures)
+    pub kinds: Vec<(String, usize)>,
+}
+impl ParseFail {
+    fn other(text: String) -> ParseFail {
+        ParseFail { text, kinds: vec![] }
+    }
+}
+
 /// Parse `src` as the kind of list `top` is and return it as a mirror tree with canonical ratios.
-fn parse_as(ctx: &Ctx, top_is_h: bool, src: &str, allow_known: bool) -> Result<Result<Top, String>, Verdict> {
+fn parse_as(ctx: &Ctx, top_is_h: bool, src: &str) -> Result<Result<Top, ParseFail>, Verdict> {
+    let fail = |n: usize, s: String, kinds: Vec<(String, usize)>| ParseFail { text: format!("{n} parse errors: {s}"), kinds };
     if top_is_h {
-        let p = guard(ctx, "parse_horizontal_list", src, allow_known, || match parse_h(src) {
-            Parsed::Ok(l) => Ok((h_from_ds(&l), l)),
-            Parsed::Errs(n, s) => Err(format!("{n} parse errors: {s}")),
-            Parsed::Bad(m) => Err(m),
+        let p = guard(ctx, "parse_horizontal_list", src, || match parse_h(src) {
+            Parsed::Ok(l) => Ok(h_from_ds(&l)),
+            Parsed::Errs(n, s, k) => Err(fail(n, s, k)),
+            Parsed::Bad(m) => Err(ParseFail::other(m)),
         })?;
         Ok(match p {
-            Ok((Ok(m), _)) => Ok(canon_top(&Top::H(m), Deviations::default()).expect("parsed ratios are in range")),
-            Ok((Err(e), _)) => Err(format!("parser produced an inexpressible node: {e}")),
+            Ok(Ok(m)) => Ok(canon_top(&Top::H(m), Deviations::default()).expect("parsed ratios are in range")),
+            Ok(Err(e)) => Err(ParseFail::other(format!("parser produced an inexpressible node: {e}"))),
             Err(e) => Err(e),
         })
     } else {
-        let p = guard(ctx, "parse_vbox_using_cst", src, allow_known, || match parse_v(src) {
+        let p = guard(ctx, "parse_vbox_using_cst", src, || match parse_v(src) {
             Parsed::Ok(l) => Ok(v_from_ds(&l)),
-            Parsed::Errs(n, s) => Err(format!("{n} parse errors: {s}")),
-            Parsed::Bad(m) => Err(m),
+            Parsed::Errs(n, s, k) => Err(fail(n, s, k)),
+            Parsed::Bad(m) => Err(ParseFail::other(m)),
         })?;
         Ok(match p {
             Ok(Ok(m)) => Ok(canon_top(&Top::V(m), Deviations::default()).expect("parsed ratios are in range")),
-            Ok(Err(e)) => Err(format!("parser produced an inexpressible node: {e}")),
+            Ok(Err(e)) => Err(ParseFail::other(format!("parser produced an inexpressible node: {e}"))),
             Err(e) => Err(e),
         })
     }
@@ -1018,50 +1018,146 @@ fn classes_of(st: &Stats, case: &mut Case) {
     case.class_if(st.ratio_ge_2p24 > 0, "ratio_k>=2^24");
     case.class_if(st.ratio_ge_16384 > 0, "ratio>=16384");
     case.class_if(st.dim_out_of_lang_range, "dimension_beyond_2^30-1");
+    case.class_if(st.int_min, "integer=-2^31");
+    case.class_if(st.uint_ge_2p31, "font_or_count>=2^31");
 }
 
 /// Domain of the property. `Some(reason)`: the tree is outside it (a generator bug; counted).
 fn outside_domain(st: &Stats) -> Option<&'static str> {
-    if st.int_min {
-        return Some("integer -2^31 (documented integer range is (-2^31, 2^31))");
-    }
-    if st.font_out_of_range {
-        return Some("font or count above 2^31-1");
-    }
     if st.ratio_den_zero {
         return Some("glue ratio with zero denominator");
     }
     None
 }
 
-/// Compare what came back with the expectation, trying listed deviations smallest subset first.
-fn judge(ctx: &Ctx, original: &Top, got: &Top, path: &str, src: &str) -> Result<(), Verdict> {
-    let subsets: [(Deviations, &[&str]); 4] = [
-        (Deviations::default(), &[]),
-        (Deviations { glue_ratio_sign_lost: true, ..Default::default() }, &[FLAG_SIGN]),
-        (Deviations { glue_ratio_f32_precision: true, ..Default::default() }, &[FLAG_F32]),
-        (Deviations { glue_ratio_sign_lost: true, glue_ratio_f32_precision: true }, &[FLAG_SIGN, FLAG_F32]),
-    ];
-    let want0 = canon_top(original, Deviations::default());
-    for (dev, flags) in subsets {
-        // Sign and f32 precision of a glue ratio are not part of the library's notion of equality
-        // (GlueRatio::eq compares the printed forms by design), so a list that differs only in
-        // them IS "an equal list" in the property's sense: accepted, not a finding.
-        if let Some(want) = canon_top(original, dev) {
-            if want == *got {
-                return Ok(());
+/// How a glue ratio that came back differs from the one that was printed (all accepted; counted).
+#[derive(Default, Debug, Clone, Copy)]
+pub struct RatioAcc {
+    pub exact: usize,
+    pub sign_lost: usize,
+    pub precision_lost: usize,
+    pub inexact_within_tolerance: usize,
+}
+
+/// Is `gk/65536` an acceptable reading of the ratio num/den after print + parse?
+/// * The library's notion of equality (GlueRatio::eq compares the printed forms, which follow
+///   TeX.2021.186: magnitude only, single precision) does not include the sign, so a lost sign is
+///   accepted (and counted).
+/// * A ratio k/65536 that single precision carries exactly (|k|, |num|, |den| < 2^24) must come back
+///   with exactly that magnitude.
+/// * Any other ratio must come back within rounding to 2^-16 plus a relative error of 2^-22 (three
+///   single-precision operations): no particular printer arithmetic is demanded.
+fn ratio_accepts(num: i32, den: i32, gk: i64, acc: &mut RatioAcc) -> bool {
+    if den == 0 {
+        return false;
+    }
+    let neg = (num < 0) != (den < 0) && num != 0;
+    let sign_ok = if neg { true } else { gk >= 0 };
+    if !sign_ok {
+        return false;
+    }
+    let sign_lost = neg && gk > 0;
+    let (an, ad, ag) = ((num as i128).abs(), (den as i128).abs(), (gk as i128).abs());
+    let within = {
+        // | ag - an*65536/ad | <= 1/2 + (an*65536/ad) * 2^-22
+        let lhs = (ag * ad - an * 65536).abs() * (1i128 << 23);
+        let rhs = ad * (1i128 << 22) + an * 65536 * 2;
+        lhs <= rhs
+    };
+    let ok = match exact_k(num, den) {
+        Some(k) => {
+            let f32_exact = k.abs() < (1 << 24) && an < (1 << 24) && ad < (1 << 24);
+            if ag == (k as i128).abs() {
+                if sign_lost {
+                    acc.sign_lost += 1
+                } else {
+                    acc.exact += 1
+                }
+                true
+            } else if !f32_exact && within {
+                acc.precision_lost += 1;
+                true
+            } else {
+                false
             }
         }
-        let _ = flags;
+        None => {
+            if within {
+                acc.inexact_within_tolerance += 1;
+                if sign_lost {
+                    acc.sign_lost += 1;
+                }
+            }
+            within
+        }
+    };
+    ok
+}
+
+fn align_hbox(o: &mut HBoxSpec, g: &HBoxSpec, acc: &mut RatioAcc) {
+    if g.den == ONE as i32 && ratio_accepts(o.num, o.den, g.num as i64, acc) {
+        o.num = g.num;
+        o.den = g.den;
     }
-    let (a, b) = (format!("{:?}", want0), format!("{:?}", Some(got)));
+    align_h(&mut o.list, &g.list, acc);
+}
+fn align_h(o: &mut [HNode], g: &[HNode], acc: &mut RatioAcc) {
+    for (a, b) in o.iter_mut().zip(g.iter()) {
+        match (a, b) {
+            (HNode::HBox(x), HNode::HBox(y)) => align_hbox(x, y, acc),
+            (HNode::VBox(x), HNode::VBox(y)) => align_v(&mut x.list, &y.list, acc),
+            (HNode::Ins(x), HNode::Ins(y)) => align_v(&mut x.vbox, &y.vbox, acc),
+            (HNode::Adjust(x), HNode::Adjust(y)) => align_v(x, y, acc),
+            (HNode::Disc { pre: p1, post: q1, .. }, HNode::Disc { pre: p2, post: q2, .. }) => {
+                align_d(p1, p2, acc);
+                align_d(q1, q2, acc);
+            }
+            _ => {}
+        }
+    }
+}
+fn align_v(o: &mut [VNode], g: &[VNode], acc: &mut RatioAcc) {
+    for (a, b) in o.iter_mut().zip(g.iter()) {
+        match (a, b) {
+            (VNode::HBox(x), VNode::HBox(y)) => align_hbox(x, y, acc),
+            (VNode::VBox(x), VNode::VBox(y)) => align_v(&mut x.list, &y.list, acc),
+            (VNode::Ins(x), VNode::Ins(y)) => align_v(&mut x.vbox, &y.vbox, acc),
+            _ => {}
+        }
+    }
+}
+fn align_d(o: &mut [DNode], g: &[DNode], acc: &mut RatioAcc) {
+    for (a, b) in o.iter_mut().zip(g.iter()) {
+        match (a, b) {
+            (DNode::HBox(x), DNode::HBox(y)) => align_hbox(x, y, acc),
+            (DNode::VBox(x), DNode::VBox(y)) => align_v(&mut x.list, &y.list, acc),
+            _ => {}
+        }
+    }
+}
+
+/// Compare what came back with what was printed: strictly, except that a glue ratio may differ as
+/// far as `ratio_accepts` allows.
+fn judge(original: &Top, got: &Top, path: &str, src: &str, acc: &mut RatioAcc) -> Result<(), Verdict> {
+    let mut want = original.clone();
+    match (&mut want, got) {
+        (Top::H(a), Top::H(b)) => align_h(a, b, acc),
+        (Top::V(a), Top::V(b)) => align_v(a, b, acc),
+        _ => {}
+    }
+    if want == *got {
+        return Ok(());
+    }
+    let (a, b) = (format!("{:?}", want), format!("{:?}", got));
     Err(Verdict::Fail(format!("{path}: the parsed list differs from the printed one (strict comparison, glue ratios as exact rationals)\n  {}\n  printed text:\n{}", first_diff(&a, &b), clip(src, 1500))))
 }
 
+const MSG_WRONG_TYPE: &str = "An argument has the wrong type";
+const MSG_TOO_LARGE: &str = "A number is too large";
+
 fn roundtrip_oracle(ctx: &Ctx, t: &TreeCase, case: &mut Case) -> Verdict {
     let st = Stats::of(&t.top);
-    if let Some(r) = outside_domain(&st) {
-        let _ = r;
+    if outside_domain(&st).is_some() {
         return Verdict::Skip("outside the language's documented domain");
     }
     classes_of(&st, case);
@@ -1069,21 +1165,20 @@ fn roundtrip_oracle(ctx: &Ctx, t: &TreeCase, case: &mut Case) -> Verdict {
         "core" => "profile_core",
         "wide_ratio" => "profile_wide_ratio",
         "wide_dim" => "profile_wide_dim",
+        "wide_int" => "profile_wide_int",
+        "parsed" => "profile_parsed",
         _ => "profile_other",
     });
     let top_is_h = matches!(t.top, Top::H(_));
     case.class(if top_is_h { "top_horizontal" } else { "top_vertical" });
-    // A listed panic signature excuses a failure only on trees that leave the language's
-    // dimension range; on every other tree a panic is a violation.
-    let allow_known_panic = st.dim_out_of_lang_range;
 
     // Print through every public path.
-    let dbg = format!("{:?}", t.top);
+    let dbg = || format!("{:?}", t.top);
     let mut texts: Vec<(&'static str, String, bool)> = vec![]; // (path, text, parse as horizontal)
     match &t.top {
         Top::H(l) => {
             let dsl = h_to_ds(l);
-            match guard(ctx, "to_box_lang+pretty_print", &dbg, false, || (print_h(&dsl), print_h_display(&dsl))) {
+            match guard_lazy(ctx, "to_box_lang+pretty_print", dbg, || (print_h(&dsl), print_h_display(&dsl))) {
                 Ok((a, b)) => {
                     texts.push(("Vec<Horizontal>::to_box_lang + pretty_print", a, true));
                     texts.push(("Display of each ds::Horizontal", b, true));
@@ -1093,7 +1188,7 @@ fn roundtrip_oracle(ctx: &Ctx, t: &TreeCase, case: &mut Case) -> Verdict {
         }
         Top::V(l) => {
             let dsl = v_to_ds(l);
-            let r = guard(ctx, "to_box_lang+pretty_print", &dbg, false, || {
+            let r = guard_lazy(ctx, "to_box_lang+pretty_print", dbg, || {
                 let vb = ds::VBox { list: dsl.clone(), ..Default::default() };
                 (print_v(&dsl), print_v_display(&dsl), format!("{}", vb))
             });
@@ -1110,6 +1205,8 @@ fn roundtrip_oracle(ctx: &Ctx, t: &TreeCase, case: &mut Case) -> Verdict {
     case.note = Some(clip(&texts[0].1, 600));
 
     let mut known: Option<Verdict> = None;
+    let mut acc = RatioAcc::default();
+    let (mut no_spelling_ratio, mut no_spelling_dim, mut formatted) = (false, false, false);
     for (path, src, as_h) in &texts {
         // What this text must parse to.
         let original: Top = if *as_h && !top_is_h {
@@ -1120,23 +1217,29 @@ fn roundtrip_oracle(ctx: &Ctx, t: &TreeCase, case: &mut Case) -> Verdict {
         } else {
             t.top.clone()
         };
-        let got = match parse_as(ctx, *as_h, src, allow_known_panic) {
+        let got = match parse_as(ctx, *as_h, src) {
             Ok(Ok(g)) => g,
             Ok(Err(e)) => {
-                // The printed text does not parse. Excused only for the listed ">= 16384" ratio defect.
-                // A glue ratio >= 16384 has no spelling the parser accepts (the printer caps at 20000.0,
-                // from_float_str rejects >= 16384): not "a value the language can express".
-                if st.ratio_ge_16384 > 0 && e.contains("An argument has the wrong type") {
-                    case.class("ratio>=16384 has no parseable spelling (outside the quantifier)");
+                // The printed text does not parse. That is no violation only where the tree holds values
+                // no source text can carry (outside "every value the language can express"):
+                //  * a glue ratio of magnitude >= 16384 (from_float_str reads the string as a dimension);
+                //  * a finite dimension beyond +-(2^30-1) / an infinite-order amount of -2^31.
+                // Each such value may cost exactly one error of the matching kind; anything else fails.
+                let mut excused = !e.kinds.is_empty();
+                for (msg, n) in &e.kinds {
+                    let budget = match msg.as_str() {
+                        MSG_WRONG_TYPE => st.ratio_ge_16384,
+                        MSG_TOO_LARGE => st.n_dim_out,
+                        _ => 0,
+                    };
+                    excused &= *n <= budget;
+                }
+                if excused {
+                    no_spelling_ratio |= e.kinds.iter().any(|(m, _)| m == MSG_WRONG_TYPE);
+                    no_spelling_dim |= e.kinds.iter().any(|(m, _)| m == MSG_TOO_LARGE);
                     continue;
                 }
-                // Dimensions of 16384pt or more (and integers beyond 32 bits) are outside the language
-                // (the parser reports "A number is too large" for them, as TeX would).
-                if st.dim_out_of_lang_range && e.contains("A number is too large") {
-                    case.class("dimension >= 16384pt has no spelling (outside the quantifier)");
-                    continue;
-                }
-                return Verdict::Fail(format!("{path}: the printed text does not parse back: {e}\n  printed text:\n{}", clip(src, 1500)));
+                return Verdict::Fail(format!("{path}: the printed text does not parse back: {}\n  printed text:\n{}", e.text, clip(src, 1500)));
             }
             Err(v @ Verdict::Known(_)) => {
                 known.get_or_insert(v);
@@ -1145,7 +1248,7 @@ fn roundtrip_oracle(ctx: &Ctx, t: &TreeCase, case: &mut Case) -> Verdict {
             Err(v) => return v,
         };
         // Library equality (what the repository's own assert_box_eq! uses).
-        let lib_equal = guard(ctx, "PartialEq", src, false, || match (&original, &got) {
+        let lib_equal = guard(ctx, "PartialEq", src, || match (&original, &got) {
             (Top::H(a), Top::H(b)) => h_to_ds(a) == h_to_ds(b),
             (Top::V(a), Top::V(b)) => v_to_ds(a) == v_to_ds(b),
             _ => false,
@@ -1155,15 +1258,37 @@ fn roundtrip_oracle(ctx: &Ctx, t: &TreeCase, case: &mut Case) -> Verdict {
             Ok(false) => return Verdict::Fail(format!("{path}: parsed list != printed list under the library's own PartialEq\n  printed text:\n{}", clip(src, 1500))),
             Err(v) => return v,
         }
-        if let Err(v) = judge(ctx, &original, &got, path, src) {
-            match v {
-                Verdict::Known(_) => {
-                    known.get_or_insert(v);
-                }
-                other => return other,
+        if let Err(v) = judge(&original, &got, path, src, &mut acc) {
+            return v;
+        }
+        // The formatter on printer output (wide values, depth 4), for a quarter of the texts: defined,
+        // idempotent, same meaning.
+        if src.len() % 4 == 0 {
+            let f1 = match guard(ctx, "format(printed text)", src, || format_src(src)) {
+                Ok(Parsed::Ok(s)) => s,
+                Ok(Parsed::Errs(n, s, _)) => return Verdict::Fail(format!("{path}: format rejects a printed text that parses: {n} errors {s}\n  printed text:\n{}", clip(src, 1500))),
+                Ok(Parsed::Bad(m)) => return Verdict::Fail(format!("{path}: format(printed text): {m}")),
+                Err(v) => return v,
+            };
+            match guard(ctx, "format∘format(printed text)", &f1, || format_src(&f1)) {
+                Ok(Parsed::Ok(f2)) if f2 == f1 => {}
+                Ok(_) => return Verdict::Fail(format!("{path}: format is not idempotent on a printed text\n  printed text:\n{}\n  format:\n{}", clip(src, 1200), clip(&f1, 1200))),
+                Err(v) => return v,
             }
+            match parse_as(ctx, *as_h, &f1) {
+                Ok(Ok(g2)) if g2 == got => {}
+                Ok(_) => return Verdict::Fail(format!("{path}: format changes what a printed text parses to\n  printed text:\n{}\n  format:\n{}", clip(src, 1200), clip(&f1, 1200))),
+                Err(v) => return v,
+            }
+            formatted = true;
         }
     }
+    case.class_if(no_spelling_ratio, "ratio>=16384 has no parseable spelling (outside the quantifier)");
+    case.class_if(no_spelling_dim, "dimension >= 16384pt has no spelling (outside the quantifier)");
+    case.class_if(formatted, "printed_text_formatted");
+    case.class_if(acc.sign_lost > 0, "accepted:ratio_sign_lost");
+    case.class_if(acc.precision_lost > 0, "accepted:ratio_beyond_single_precision");
+    case.class_if(acc.inexact_within_tolerance > 0, "accepted:ratio_inexpressible_within_tolerance");
     match known {
         Some(v) => v,
         None => Verdict::pass(st.nontrivial()),
@@ -1224,17 +1349,35 @@ fn glue_spec(wide: bool) -> BoxedStrategy<GlueSpec> {
     (scaled(wide), component(wide), component(wide)).prop_map(|(w, (st, sto), (sh, sho))| GlueSpec { w, st, sto, sh, sho }).boxed()
 }
 
-fn font() -> BoxedStrategy<u32> {
+/// Font numbers: `ds::Char.font` is a u32. The language writes it as an integer; values from 2^31
+/// on are the ones a negative integer denotes (`chars("a", -1)` parses to font 2^32-1).
+fn font(wide_int: bool) -> BoxedStrategy<u32> {
+    if !wide_int {
+        return prop_oneof![
+            7 => sel(vec![0u32, 0, 0, 1, 1, 2, 3, 255, 256]),
+            1 => Just(i32::MAX as u32),
+            2 => 0u32..=(i32::MAX as u32),
+        ]
+        .boxed();
+    }
     prop_oneof![
-        7 => sel(vec![0u32, 0, 0, 1, 1, 2, 3, 255, 256]),
-        1 => Just(i32::MAX as u32),
-        2 => 0u32..=(i32::MAX as u32),
+        4 => sel(vec![0u32, 1, 2, 255]),
+        3 => sel(vec![u32::MAX, 1u32 << 31, (1u32 << 31) + 1, u32::MAX - 1, i32::MAX as u32]),
+        3 => any::<u32>(),
     ]
     .boxed()
 }
 
-/// Integer fields (penalty): the documented range (-2^31, 2^31).
-fn int() -> BoxedStrategy<i32> {
+/// Integer fields (penalty): every i32 the lexer accepts (the documented range is (-2^31, 2^31);
+/// `-2147483648` is accepted too and occurs in the wide-integer profile).
+fn int(wide_int: bool) -> BoxedStrategy<i32> {
+    if wide_int {
+        return prop_oneof![
+            3 => sel(vec![i32::MIN, i32::MIN + 1, i32::MAX, -1, 0]),
+            2 => any::<i32>(),
+        ]
+        .boxed();
+    }
     prop_oneof![
         4 => -10000i32..=10000,
         2 => sel(vec![10000, -10000, i32::MAX, -i32::MAX, 0, 1, -1, 10001]),
@@ -1243,7 +1386,16 @@ fn int() -> BoxedStrategy<i32> {
     .boxed()
 }
 
-fn uint31() -> BoxedStrategy<u32> {
+/// replace_count / float_penalty (u32 in the data structure).
+fn uint(wide_int: bool) -> BoxedStrategy<u32> {
+    if wide_int {
+        return prop_oneof![
+            2 => 0u32..=5,
+            3 => sel(vec![u32::MAX, 1u32 << 31, (1u32 << 31) + 1, i32::MAX as u32]),
+            3 => any::<u32>(),
+        ]
+        .boxed();
+    }
     prop_oneof![
         5 => 0u32..=5,
         2 => sel(vec![i32::MAX as u32, 10000, 65536]),
@@ -1318,8 +1470,8 @@ fn ratio(wide: bool) -> BoxedStrategy<(i32, i32)> {
 
 /// Splices a run of same-font characters into a horizontal list (one time in three): the
 /// printer merges such runs into one `chars` call.
-fn with_runs(l: BoxedStrategy<Vec<HNode>>) -> BoxedStrategy<Vec<HNode>> {
-    let run = (any::<u16>(), proptest::collection::vec(ch(), 2..5), font());
+fn with_runs(l: BoxedStrategy<Vec<HNode>>, wide_int: bool) -> BoxedStrategy<Vec<HNode>> {
+    let run = (any::<u16>(), proptest::collection::vec(ch(), 2..5), font(wide_int));
     (l, prop_oneof![2 => Just(None), 1 => run.prop_map(Some)])
         .prop_map(|(mut l, run)| {
             if let Some((pos, cs, font)) = run {
@@ -1333,10 +1485,27 @@ fn with_runs(l: BoxedStrategy<Vec<HNode>>) -> BoxedStrategy<Vec<HNode>> {
         .boxed()
 }
 
+/// The same for discretionary lists (there the printer writes one `chars` call per character, a
+/// hand-written source may write `chars("ab", 3)`).
+fn with_runs_d(l: BoxedStrategy<Vec<DNode>>, wide_int: bool) -> BoxedStrategy<Vec<DNode>> {
+    let run = (any::<u16>(), proptest::collection::vec(ch(), 2..4), font(wide_int));
+    (l, prop_oneof![2 => Just(None), 1 => run.prop_map(Some)])
+        .prop_map(|(mut l, run)| {
+            if let Some((pos, cs, font)) = run {
+                let at = ((pos as usize) * (l.len() + 1)) >> 16;
+                for (k, c) in cs.into_iter().enumerate() {
+                    l.insert(at + k, DNode::Char { c, font });
+                }
+            }
+            l
+        })
+        .boxed()
+}
+
 type Lists = (BoxedStrategy<Vec<HNode>>, BoxedStrategy<Vec<VNode>>, BoxedStrategy<Vec<DNode>>);
 
-fn lig_spec() -> BoxedStrategy<LigSpec> {
-    (ch(), font(), short_string(), any::<bool>(), any::<bool>()).prop_map(|(c, font, orig, left, right)| LigSpec { c, font, orig, left, right }).boxed()
+fn lig_spec(wide_int: bool) -> BoxedStrategy<LigSpec> {
+    (ch(), font(wide_int), short_string(), any::<bool>(), any::<bool>()).prop_map(|(c, font, orig, left, right)| LigSpec { c, font, orig, left, right }).boxed()
 }
 
 fn hbox_spec(wide: bool, wide_ratio: bool, inner: BoxedStrategy<Vec<HNode>>) -> BoxedStrategy<HBoxSpec> {
@@ -1347,22 +1516,34 @@ fn hbox_spec(wide: bool, wide_ratio: bool, inner: BoxedStrategy<Vec<HNode>>) -> 
 fn vbox_spec(wide: bool, inner: BoxedStrategy<Vec<VNode>>) -> BoxedStrategy<VBoxSpec> {
     ((scaled(wide), scaled(wide), scaled(wide), scaled(wide)), inner).prop_map(|((h, w, d, shift), list)| VBoxSpec { h, w, d, shift, list }).boxed()
 }
-fn ins_spec(wide: bool, inner: BoxedStrategy<Vec<VNode>>) -> BoxedStrategy<InsSpec> {
-    (any::<u8>(), scaled(wide), scaled(wide), glue_spec(wide), uint31(), inner)
+fn ins_spec(wide: bool, wide_int: bool, inner: BoxedStrategy<Vec<VNode>>) -> BoxedStrategy<InsSpec> {
+    (any::<u8>(), scaled(wide), scaled(wide), glue_spec(wide), uint(wide_int), inner)
         .prop_map(|(box_number, height, split_max_depth, skip, float_penalty, vbox)| InsSpec { box_number, height, split_max_depth, skip, float_penalty, vbox })
         .boxed()
 }
 
 /// Lists of nesting capacity `level` (0 = leaves only), built level by level (linear cost).
-fn lists(wide: bool, wide_ratio: bool, level: usize, top_len: usize) -> Lists {
+/// Value profile of a generated tree.
+#[derive(Clone, Copy, Default)]
+pub struct Prof {
+    /// any i32 dimension (otherwise the language's documented ranges)
+    pub wide: bool,
+    /// any glue ratio with a non-zero denominator (otherwise k/65536, 0 <= k < 2^24)
+    pub wide_ratio: bool,
+    /// the full u32 / i32 range of fonts, counts and penalties (otherwise 0..2^31-1 / (-2^31, 2^31))
+    pub wide_int: bool,
+}
+
+fn lists(p: Prof, level: usize, top_len: usize) -> Lists {
+    let Prof { wide, wide_ratio, wide_int } = p;
     let rule = || (rule_dim(wide), rule_dim(wide), rule_dim(wide));
     let h_leaf: BoxedStrategy<HNode> = prop_oneof![
-        7 => (ch(), font()).prop_map(|(c, font)| HNode::Char { c, font }),
+        7 => (ch(), font(wide_int)).prop_map(|(c, font)| HNode::Char { c, font }),
         3 => glue_spec(wide).prop_map(HNode::Glue),
         2 => scaled(wide).prop_map(HNode::Kern),
-        2 => int().prop_map(HNode::Penalty),
+        2 => int(wide_int).prop_map(HNode::Penalty),
         2 => rule().prop_map(|(h, w, d)| HNode::Rule { h, w, d }),
-        2 => lig_spec().prop_map(HNode::Lig),
+        2 => lig_spec(wide_int).prop_map(HNode::Lig),
         1 => Just(HNode::Mark),
         1 => any::<bool>().prop_map(|after| HNode::Math { after }),
     ]
@@ -1370,23 +1551,23 @@ fn lists(wide: bool, wide_ratio: bool, level: usize, top_len: usize) -> Lists {
     let v_leaf: BoxedStrategy<VNode> = prop_oneof![
         4 => glue_spec(wide).prop_map(VNode::Glue),
         3 => scaled(wide).prop_map(VNode::Kern),
-        3 => int().prop_map(VNode::Penalty),
+        3 => int(wide_int).prop_map(VNode::Penalty),
         3 => rule().prop_map(|(h, w, d)| VNode::Rule { h, w, d }),
         1 => Just(VNode::Mark),
         1 => any::<bool>().prop_map(|after| VNode::Math { after }),
     ]
     .boxed();
     let d_leaf: BoxedStrategy<DNode> = prop_oneof![
-        6 => (ch(), font()).prop_map(|(c, font)| DNode::Char { c, font }),
+        6 => (ch(), font(wide_int)).prop_map(|(c, font)| DNode::Char { c, font }),
         2 => scaled(wide).prop_map(DNode::Kern),
         2 => rule().prop_map(|(h, w, d)| DNode::Rule { h, w, d }),
-        2 => lig_spec().prop_map(DNode::Lig),
+        2 => lig_spec(wide_int).prop_map(DNode::Lig),
     ]
     .boxed();
     let mut cur: Lists = (
-        with_runs(proptest::collection::vec(h_leaf.clone(), 0..4).boxed()),
+        with_runs(proptest::collection::vec(h_leaf.clone(), 0..4).boxed(), wide_int),
         proptest::collection::vec(v_leaf.clone(), 0..4).boxed(),
-        proptest::collection::vec(d_leaf.clone(), 0..3).boxed(),
+        with_runs_d(proptest::collection::vec(d_leaf.clone(), 0..3).boxed(), wide_int),
     );
     for lv in 1..=level {
         let (hl, vl, dl) = cur.clone();
@@ -1394,16 +1575,16 @@ fn lists(wide: bool, wide_ratio: bool, level: usize, top_len: usize) -> Lists {
             18 => h_leaf.clone(),
             3 => hbox_spec(wide, wide_ratio, hl.clone()).prop_map(HNode::HBox),
             2 => vbox_spec(wide, vl.clone()).prop_map(HNode::VBox),
-            2 => (dl.clone(), dl.clone(), uint31()).prop_map(|(pre, post, replace)| HNode::Disc { pre, post, replace }),
+            2 => (dl.clone(), dl.clone(), uint(wide_int)).prop_map(|(pre, post, replace)| HNode::Disc { pre, post, replace }),
             1 => vl.clone().prop_map(HNode::Adjust),
-            1 => ins_spec(wide, vl.clone()).prop_map(HNode::Ins),
+            1 => ins_spec(wide, wide_int, vl.clone()).prop_map(HNode::Ins),
         ]
         .boxed();
         let v_node: BoxedStrategy<VNode> = prop_oneof![
             10 => v_leaf.clone(),
             4 => hbox_spec(wide, wide_ratio, hl.clone()).prop_map(VNode::HBox),
             2 => vbox_spec(wide, vl.clone()).prop_map(VNode::VBox),
-            1 => ins_spec(wide, vl.clone()).prop_map(VNode::Ins),
+            1 => ins_spec(wide, wide_int, vl.clone()).prop_map(VNode::Ins),
         ]
         .boxed();
         let d_node: BoxedStrategy<DNode> = prop_oneof![
@@ -1414,16 +1595,16 @@ fn lists(wide: bool, wide_ratio: bool, level: usize, top_len: usize) -> Lists {
         .boxed();
         let n = if lv == level { top_len } else { 4 };
         cur = (
-            with_runs(proptest::collection::vec(h_node, 0..=n).boxed()),
+            with_runs(proptest::collection::vec(h_node, 0..=n).boxed(), wide_int),
             proptest::collection::vec(v_node, 0..=n).boxed(),
-            proptest::collection::vec(d_node, 0..3).boxed(),
+            with_runs_d(proptest::collection::vec(d_node, 0..3).boxed(), wide_int),
         );
     }
     cur
 }
 
-fn top_strategy(wide: bool, wide_ratio: bool, level: usize, top_len: usize) -> BoxedStrategy<Top> {
-    let (h, v, _) = lists(wide, wide_ratio, level, top_len);
+fn top_strategy(p: Prof, level: usize, top_len: usize) -> BoxedStrategy<Top> {
+    let (h, v, _) = lists(p, level, top_len);
     prop_oneof![
         3 => h.prop_map(Top::H),
         1 => v.prop_map(Top::V),
@@ -1433,9 +1614,10 @@ fn top_strategy(wide: bool, wide_ratio: bool, level: usize, top_len: usize) -> B
 
 pub fn tree_strategy() -> BoxedStrategy<TreeCase> {
     prop_oneof![
-        14 => top_strategy(false, false, 4, 7).prop_map(|top| TreeCase { profile: "core".into(), top }),
-        3 => top_strategy(false, true, 4, 5).prop_map(|top| TreeCase { profile: "wide_ratio".into(), top }),
-        3 => top_strategy(true, false, 4, 5).prop_map(|top| TreeCase { profile: "wide_dim".into(), top }),
+        14 => top_strategy(Prof::default(), 4, 7).prop_map(|top| TreeCase { profile: "core".into(), top }),
+        3 => top_strategy(Prof { wide_ratio: true, ..Default::default() }, 4, 5).prop_map(|top| TreeCase { profile: "wide_ratio".into(), top }),
+        3 => top_strategy(Prof { wide: true, ..Default::default() }, 4, 5).prop_map(|top| TreeCase { profile: "wide_dim".into(), top }),
+        3 => top_strategy(Prof { wide_int: true, ..Default::default() }, 4, 5).prop_map(|top| TreeCase { profile: "wide_int".into(), top }),
     ]
     .boxed()
 }
@@ -1509,6 +1691,71 @@ impl<'a> Style<'a> {
     }
 }
 
+// -- TeX's reading of a dimension (independent of the repository) -----------------------------
+
+/// The units of TeX.2021.458 with their conversion fractions num/denom (`sp` is handled apart).
+const UNITS: [(&str, i64, i64); 8] = [("pt", 1, 1), ("in", 7227, 100), ("pc", 12, 1), ("cm", 7227, 254), ("mm", 7227, 2540), ("bp", 7227, 7200), ("dd", 1238, 1157), ("cc", 14856, 1157)];
+
+/// TeX.2021.102 round_decimals over the first 17 fraction digits (TeX.2021.452 keeps no more).
+fn tex_round_decimals(frac: &str) -> i64 {
+    let digs: Vec<i64> = frac.bytes().take(17).map(|b| (b - b'0') as i64).collect();
+    let mut a: i64 = 0;
+    for d in digs.iter().rev() {
+        a = (a + d * 131072) / 10;
+    }
+    (a + 1) / 2
+}
+
+/// Magnitude in sp of `<int>.<frac><unit>` as scan_dimen reads it (TeX.2021.448-458), written from the
+/// literate source. `None` = "Dimension too large" (or an integer part TeX.2021.445 calls too big).
+pub fn tex_dimen(int: &str, frac: &str, unit: &str) -> Option<i32> {
+    let mut cur_val: i64 = 0;
+    for b in int.bytes() {
+        cur_val = cur_val * 10 + (b - b'0') as i64;
+        if cur_val > i32::MAX as i64 {
+            return None;
+        }
+    }
+    let mut f = tex_round_decimals(frac);
+    if unit == "sp" {
+        // "goto done": the fraction is dropped
+        return if cur_val >= 1 << 30 { None } else { Some(cur_val as i32) };
+    }
+    let &(_, num, denom) = UNITS.iter().find(|u| u.0 == unit)?;
+    if (num, denom) != (1, 1) {
+        // cur_val := xn_over_d(cur_val, num, denom); f := (num*f + 2^16*remainder) div denom
+        let prod = cur_val * num;
+        let (q, rem) = (prod / denom, prod % denom);
+        if q >= 1 << 30 {
+            return None; // xn_over_d sets arith_error
+        }
+        cur_val = q;
+        f = (num * f + 65536 * rem) / denom;
+        cur_val += f / 65536;
+        f %= 65536;
+    }
+    // attach_fraction
+    if cur_val >= 16384 {
+        return None;
+    }
+    let v = cur_val * 65536 + f;
+    if v >= 1 << 30 {
+        None
+    } else {
+        Some(v as i32)
+    }
+}
+
+/// A decimal numeral with `ndec` fraction digits that approximates `mag` sp in the given unit
+/// (rounded down). `ndec == 0` gives the integer form without a decimal point.
+fn numeral_in_unit(mag: i32, unit: usize, ndec: usize) -> (String, String) {
+    let (_, num, denom) = UNITS[unit];
+    let scale = 10u128.pow(ndec as u32);
+    let q = (mag as u128) * (denom as u128) * scale / (65536u128 * num as u128);
+    let (i, f) = (q / scale, q % scale);
+    (format!("{i}"), if ndec == 0 { String::new() } else { format!("{:0width$}", f, width = ndec) })
+}
+
 #[derive(Default, Clone)]
 struct Feat {
     comments: usize,
@@ -1518,10 +1765,63 @@ struct Feat {
     defaults_omitted: usize,
     no_commas: usize,
     sp_units: usize,
-    sp_ge_32768: usize,
     unicode_escapes: usize,
+    unicode_escapes_upper_or_padded: usize,
     merged_chars: usize,
+    merged_chars_in_disc: usize,
+    empty_chars: usize,
+    integer_form_dim: usize,
+    integer_form_fil: usize,
+    other_unit: [usize; 8],
+    negative_ratio: usize,
+    comment_at: [usize; NPOS],
+    comment_generated_text: usize,
+    comment_crlf: usize,
+    comment_eof_no_newline: usize,
+    two_comments_in_a_row: usize,
+    no_final_newline: usize,
+    raw_newline_in_string: usize,
 }
+
+/// The places where the renderer may put white space and a comment.
+#[derive(Clone, Copy, PartialEq, Eq, Debug)]
+enum Pos {
+    TopLevel = 0,
+    ListStart,
+    ListBetween,
+    NameParen,
+    AfterLParen,
+    EmptyParens,
+    KeyEq,
+    EqValue,
+    AfterValue,
+    AfterComma,
+    BetweenArgsNoComma,
+    BeforeRParenAfterComma,
+    BeforeRParenNoComma,
+    ListEnd,
+    EmptyList,
+    Eof,
+}
+const NPOS: usize = 16;
+const POS_CLASS: [&str; NPOS] = [
+    "comment@top_level_before_call",
+    "comment@list_start",
+    "comment@list_between_calls",
+    "comment@name_lparen",
+    "comment@first_in_parens",
+    "comment@in_empty_parens",
+    "comment@key_eq",
+    "comment@eq_value",
+    "comment@value_comma",
+    "comment@after_comma",
+    "comment@between_args_without_comma",
+    "comment@before_rparen_after_comma",
+    "comment@before_rparen_after_value",
+    "comment@list_end",
+    "comment@in_empty_list",
+    "comment@eof",
+];
 
 enum Val<'t> {
     Str(String),
@@ -1543,15 +1843,97 @@ struct ArgSpec<'t> {
     is_default: bool,
 }
 
+// -- What the explicit CST of a rendered source must look like --------------------------------
+//
+// cst.rs documents the explicit representation through the field comments of `FuncCall` / `Arg`
+// ("Comments before the function call", "Comments preceding the argument", "Comments between the
+// last argument and the closing parenthesis") and pins the attribution with its tests
+// comment_0..comment_10 and comment_in_empty_list: a comment belongs to the next call / the
+// argument it precedes; a comment between a value and the comma (or, without comma, the next
+// argument or the `)`) still belongs to that value's argument; after the last comma it trails the
+// call; before `]` (or EOF) it trails the list.
+
+#[derive(Debug, Clone, PartialEq, Eq, Default)]
+pub struct XTree {
+    pub calls: Vec<XCall>,
+    pub trailing: Vec<String>,
+}
+#[derive(Debug, Clone, PartialEq, Eq)]
+pub struct XCall {
+    pub comments: Vec<String>,
+    pub name: String,
+    pub args: Vec<XArg>,
+    pub trailing: Vec<String>,
+}
+#[derive(Debug, Clone, PartialEq, Eq)]
+pub struct XArg {
+    pub comments: Vec<String>,
+    pub key: Option<String>,
+    pub value: XVal,
+}
+#[derive(Debug, Clone, PartialEq, Eq)]
+pub enum XVal {
+    Int(i32),
+    Dim(i32),
+    Inf(i32, u8),
+    Str(String),
+    List(XTree),
+}
+
+pub fn x_of_tree(t: &cst::Tree<'_>) -> XTree {
+    let cs = |v: &Vec<&str>| v.iter().map(|s| s.to_string()).collect::<Vec<_>>();
+    XTree {
+        calls: t
+            .calls
+            .iter()
+            .map(|c| XCall {
+                comments: cs(&c.comments),
+                name: format!("{}", c.func_name),
+                args: c
+                    .args
+                    .iter()
+                    .map(|a| XArg {
+                        comments: cs(&a.comments),
+                        key: a.key.as_ref().map(|k| format!("{k}")),
+                        value: match &a.value {
+                            cst::Value::Integer(i) => XVal::Int(*i),
+                            cst::Value::Scaled(s) => XVal::Dim(s.0),
+                            cst::Value::InfiniteGlue(s, o) => XVal::Inf(s.0, order_to(*o)),
+                            cst::Value::String(s) => XVal::Str(s.to_string()),
+                            cst::Value::List(t) => XVal::List(x_of_tree(t)),
+                        },
+                    })
+                    .collect(),
+                trailing: cs(&c.trailing_comments),
+            })
+            .collect(),
+        trailing: cs(&t.trailing_comments),
+    }
+}
+
 const WS: [&str; 10] = ["", " ", "\n", "  ", "\n\n", "\t", " \n  \n ", "\r\n", "\u{a0}", "\n\n\n    "];
 const COMMENTS: [&str; 10] = ["", " c", " (unbalanced [", " \"quote", " \u{e9}\u{1f600}", "#double", " trailing   ", " \\", " ) ] ,", " chars(\"x\")"];
+/// Alphabet of generated comment text: everything but a line feed may stand in a comment.
+const COMMENT_ALPHABET: [char; 28] = [' ', 'a', 'Z', '0', '#', '"', '\\', '(', ')', '[', ']', ',', '=', '\t', '\r', '\u{e9}', '\u{1f600}', '\u{a0}', '\u{301}', '\u{2028}', '-', '.', 'u', '{', '}', '\'', '\u{85}', '\u{0}'];
+
+struct Frame {
+    top: bool,
+    calls: Vec<XCall>,
+}
 
 struct Renderer<'a> {
     out: String,
     st: Style<'a>,
     feat: Feat,
-    /// whether `<n>sp` with n >= 32768 may be written (one source in eight)
-    big_sp: bool,
+    /// value in sp -> a spelling in another unit that TeX reads as exactly this value
+    spell: std::collections::BTreeMap<i32, (String, usize)>,
+    /// comments written and not yet attributed
+    pending: Vec<String>,
+    frames: Vec<Frame>,
+    /// `out.len()` right after the last comment and the white space that followed it
+    after_comment_len: usize,
+    /// `out.len()` right after the text of the last comment (before its line end)
+    comment_text_end: usize,
 }
 
 impl<'a> Renderer<'a> {
@@ -1563,19 +1945,38 @@ impl<'a> Renderer<'a> {
         }
         self.out.push_str(WS[i]);
     }
-    fn maybe_comment(&mut self) {
+    fn maybe_comment(&mut self, pos: Pos) {
         if self.st.chance(6) {
-            let i = self.st.pick(COMMENTS.len());
+            let text: String = if self.st.chance(2) {
+                self.feat.comment_generated_text += 1;
+                let n = self.st.pick(9);
+                (0..n).map(|_| COMMENT_ALPHABET[self.st.pick(COMMENT_ALPHABET.len())]).collect()
+            } else {
+                COMMENTS[self.st.pick(COMMENTS.len())].to_string()
+            };
+            if self.after_comment_len <= self.out.len() && self.out[self.after_comment_len..].trim().is_empty() {
+                self.feat.two_comments_in_a_row += 1;
+            }
             self.out.push('#');
-            self.out.push_str(COMMENTS[i]);
+            self.out.push_str(&text);
+            self.comment_text_end = self.out.len();
+            // the comment ends at the line feed; a carriage return before it is part of the comment
+            let crlf = self.st.chance(5);
+            if crlf {
+                self.feat.comment_crlf += 1;
+                self.out.push('\r');
+            }
             self.out.push('\n');
+            self.pending.push(if crlf { format!("{text}\r") } else { text });
             self.feat.comments += 1;
+            self.feat.comment_at[pos as usize] += 1;
             self.ws();
+            self.after_comment_len = self.out.len();
         }
     }
-    fn gap(&mut self) {
+    fn gap(&mut self, pos: Pos) {
         self.ws();
-        self.maybe_comment();
+        self.maybe_comment(pos);
     }
     fn string(&mut self, s: &str) {
         self.out.push('"');
@@ -1583,7 +1984,25 @@ impl<'a> Renderer<'a> {
             let mode = self.st.pick(4);
             let must_escape = c == '"' || c == '\\';
             if mode == 3 {
-                let _ = write!(self.out, "\\u{{{:x}}}", c as u32);
+                // Rust's \u{..}: 1 to 6 hex digits of either case
+                let u = c as u32;
+                match self.st.pick(4) {
+                    0 => {
+                        let _ = write!(self.out, "\\u{{{:x}}}", u);
+                    }
+                    1 => {
+                        let _ = write!(self.out, "\\u{{{:X}}}", u);
+                        self.feat.unicode_escapes_upper_or_padded += 1;
+                    }
+                    2 => {
+                        let _ = write!(self.out, "\\u{{{:06x}}}", u);
+                        self.feat.unicode_escapes_upper_or_padded += 1;
+                    }
+                    _ => {
+                        let _ = write!(self.out, "\\u{{{:04X}}}", u);
+                        self.feat.unicode_escapes_upper_or_padded += 1;
+                    }
+                }
                 self.feat.unicode_escapes += 1;
             } else if must_escape || mode == 2 {
                 match c {
@@ -1597,6 +2016,9 @@ impl<'a> Renderer<'a> {
                     c => self.out.push(c),
                 }
             } else {
+                if c == '\n' {
+                    self.feat.raw_newline_in_string += 1;
+                }
                 self.out.push(c);
             }
         }
@@ -1618,77 +2040,112 @@ impl<'a> Renderer<'a> {
         }
     }
     fn dim(&mut self, v: i32) {
-        // `sp` spelling; values of 32768sp and more hit a lexer panic (reported), so they are rarer
-        if v.abs() <= M30 && self.st.chance(4) && (v.abs() < 32768 || self.big_sp) {
-            self.feat.sp_units += 1;
-            if v.abs() >= 32768 {
-                self.feat.sp_ge_32768 += 1;
+        if let Some((s, unit)) = self.spell.get(&v).cloned() {
+            if self.st.chance(2) {
+                self.feat.other_unit[unit] += 1;
+                self.out.push_str(&s);
+                return;
             }
+        }
+        if v.abs() <= M30 && self.st.chance(4) {
+            self.feat.sp_units += 1;
             let _ = write!(self.out, "{}sp", v);
+        } else if v % 65536 == 0 && self.st.chance(3) {
+            // the form of the documentation's examples: `1pt`
+            self.feat.integer_form_dim += 1;
+            let _ = write!(self.out, "{}pt", v / 65536);
         } else {
             let d = self.decimal(v);
             let _ = write!(self.out, "{}pt", d);
         }
     }
-    fn value(&mut self, v: &Val<'_>) {
+    fn value(&mut self, v: &Val<'_>) -> XVal {
         match v {
-            Val::Str(s) => self.string(s),
+            Val::Str(s) => {
+                self.string(s);
+                XVal::Str(s.clone())
+            }
             Val::Int(i) => {
                 if self.st.chance(5) && *i >= 0 {
                     let _ = write!(self.out, "00{}", i);
                 } else {
                     let _ = write!(self.out, "{}", i);
                 }
+                XVal::Int(*i as i32)
             }
-            Val::Dim(d) => self.dim(*d),
-            Val::Comp(d, 0) => self.dim(*d),
+            Val::Dim(d) | Val::Comp(d, 0) => {
+                self.dim(*d);
+                XVal::Dim(*d)
+            }
             Val::Comp(d, o) => {
-                let dec = self.decimal(*d);
-                let _ = write!(self.out, "{}{}", dec, ["pt", "fil", "fill", "filll"][(*o % 4) as usize]);
+                let unit = ["pt", "fil", "fill", "filll"][(*o % 4) as usize];
+                if *d % 65536 == 0 && self.st.chance(3) {
+                    // `5fil`
+                    self.feat.integer_form_fil += 1;
+                    let _ = write!(self.out, "{}{}", *d / 65536, unit);
+                } else {
+                    let dec = self.decimal(*d);
+                    let _ = write!(self.out, "{}{}", dec, unit);
+                }
+                XVal::Inf(*d, *o % 4)
             }
             Val::Bool(b) => {
                 let _ = write!(self.out, "\"{}\"", b);
+                XVal::Str(b.to_string())
             }
             Val::Order(o) => {
-                let _ = write!(self.out, "\"{}\"", ["normal", "fil", "fill", "filll"][(*o % 4) as usize]);
+                let s = ["normal", "fil", "fill", "filll"][(*o % 4) as usize];
+                let _ = write!(self.out, "\"{}\"", s);
+                XVal::Str(s.to_string())
             }
             Val::Ratio(k) => {
                 let k = *k as i32;
                 let d = if k % 65536 == 0 && self.st.chance(3) { format!("{}", k / 65536) } else { self.decimal(k) };
                 let _ = write!(self.out, "\"{}\"", d);
+                XVal::Str(d)
             }
             Val::MaybeRunning(d) => {
                 if *d == RUNNING {
                     self.out.push_str("\"running\"");
+                    XVal::Str("running".into())
                 } else {
-                    self.dim(*d)
+                    self.dim(*d);
+                    XVal::Dim(*d)
                 }
             }
-            Val::H(l) => {
-                self.out.push('[');
-                self.hlist(l);
-                self.gap();
-                self.out.push(']');
-            }
-            Val::V(l) => {
-                self.out.push('[');
-                self.vlist(l);
-                self.gap();
-                self.out.push(']');
-            }
-            Val::D(l) => {
-                self.out.push('[');
-                self.dlist(l);
-                self.gap();
-                self.out.push(']');
-            }
+            Val::H(l) => XVal::List(self.bracketed(|r| r.hlist(l))),
+            Val::V(l) => XVal::List(self.bracketed(|r| r.vlist(l))),
+            Val::D(l) => XVal::List(self.bracketed(|r| r.dlist(l))),
         }
     }
+    fn bracketed(&mut self, body: impl FnOnce(&mut Self)) -> XTree {
+        self.out.push('[');
+        let saved = std::mem::take(&mut self.pending);
+        self.frames.push(Frame { top: false, calls: vec![] });
+        body(self);
+        let empty = self.frames.last().map(|f| f.calls.is_empty()).unwrap_or(true);
+        self.gap(if empty { Pos::EmptyList } else { Pos::ListEnd });
+        self.out.push(']');
+        let fr = self.frames.pop().expect("frame");
+        let trailing = std::mem::replace(&mut self.pending, saved);
+        XTree { calls: fr.calls, trailing }
+    }
     fn call(&mut self, name: &str, args: Vec<ArgSpec<'_>>) {
-        self.gap();
+        let pos = {
+            let fr = self.frames.last().expect("frame");
+            if fr.top {
+                Pos::TopLevel
+            } else if fr.calls.is_empty() {
+                Pos::ListStart
+            } else {
+                Pos::ListBetween
+            }
+        };
+        self.gap(pos);
         self.out.push_str(name);
-        self.gap();
+        self.gap(Pos::NameParen);
         self.out.push('(');
+        let comments = std::mem::take(&mut self.pending);
         // first `npos` arguments positionally (in declaration order), the others by keyword
         let default_pos = match name {
             "chars" | "penalty" | "kern" | "insertion" | "math" => 1,
@@ -1716,9 +2173,6 @@ impl<'a> Renderer<'a> {
         }
         let omit_defaults = self.st.chance(2);
         let commas = !self.st.chance(4);
-        if !commas {
-            self.feat.no_commas += 1;
-        }
         let mut seq: Vec<(usize, bool)> = (0..npos).map(|i| (i, false)).collect();
         for i in order {
             if omit_defaults && args[i].is_default {
@@ -1728,32 +2182,78 @@ impl<'a> Renderer<'a> {
             seq.push((i, true));
         }
         let n = seq.len();
+        if !commas && n > 1 {
+            self.feat.no_commas += 1;
+        }
+        let mut xargs: Vec<XArg> = vec![];
+        // was a comma written after the previous argument?
+        let mut prev_comma = false;
         for (j, (i, keyword)) in seq.into_iter().enumerate() {
-            self.gap();
+            self.gap(if j == 0 {
+                Pos::AfterLParen
+            } else if prev_comma {
+                Pos::AfterComma
+            } else {
+                Pos::BetweenArgsNoComma
+            });
+            if j > 0 && !prev_comma {
+                // no comma: everything up to this argument's first token still belongs to the previous one
+                let c = std::mem::take(&mut self.pending);
+                xargs[j - 1].comments.extend(c);
+            }
             if keyword {
                 self.out.push_str(args[i].key);
-                self.gap();
+                self.gap(Pos::KeyEq);
                 self.out.push('=');
-                self.gap();
+                self.gap(Pos::EqValue);
             }
-            self.value(&args[i].val);
-            self.gap();
+            let value = self.value(&args[i].val);
+            xargs.push(XArg { comments: vec![], key: if keyword { Some(args[i].key.to_string()) } else { None }, value });
+            self.gap(Pos::AfterValue);
             let last = j + 1 == n;
             if commas && (!last || self.st.chance(2)) {
                 self.out.push(',');
-            } else if !last {
-                // no comma: keep the tokens apart
-                self.out.push(' ');
+                prev_comma = true;
+                let c = std::mem::take(&mut self.pending);
+                xargs[j].comments.extend(c);
+            } else {
+                prev_comma = false;
+                if !last {
+                    // no comma: keep the tokens apart
+                    self.out.push(' ');
+                }
             }
         }
-        self.gap();
+        self.gap(if n == 0 {
+            Pos::EmptyParens
+        } else if prev_comma {
+            Pos::BeforeRParenAfterComma
+        } else {
+            Pos::BeforeRParenNoComma
+        });
         self.out.push(')');
+        let rest = std::mem::take(&mut self.pending);
+        let trailing = if n > 0 && !prev_comma {
+            xargs[n - 1].comments.extend(rest);
+            vec![]
+        } else {
+            rest
+        };
+        self.frames.last_mut().expect("frame").calls.push(XCall { comments, name: name.to_string(), args: xargs, trailing });
     }
     fn a<'t>(key: &'static str, val: Val<'t>, is_default: bool) -> ArgSpec<'t> {
         ArgSpec { key, val, is_default }
     }
     fn chars(&mut self, s: &str, font: u32) {
         self.call("chars", vec![Self::a("content", Val::Str(s.to_string()), s.is_empty()), Self::a("font", Val::Int(font as i64), font == 0)]);
+    }
+    /// A `chars` call without characters (no node results), one time in sixteen.
+    fn maybe_empty_chars(&mut self) {
+        if self.st.chance(16) {
+            self.feat.empty_chars += 1;
+            let font = [0u32, 0, 3, 7][self.st.pick(4)];
+            self.chars("", font);
+        }
     }
     fn glue_args<'t>(g: &GlueSpec, names: [&'static str; 3]) -> Vec<ArgSpec<'t>> {
         vec![
@@ -1812,7 +2312,8 @@ impl<'a> Renderer<'a> {
         self.call("insertion", args);
     }
     fn mark(&mut self) {
-        self.call("mark", vec![Self::a("dummy", Val::Int(0), true)]);
+        // "Parameters: none."
+        self.call("mark", vec![]);
     }
     fn math(&mut self, after: bool) {
         self.call("math", vec![Self::a("kind", Val::Str(if after { "after" } else { "before" }.into()), !after)]);
@@ -1820,6 +2321,7 @@ impl<'a> Renderer<'a> {
     fn hlist(&mut self, l: &[HNode]) {
         let mut i = 0;
         while i < l.len() {
+            self.maybe_empty_chars();
             match &l[i] {
                 HNode::Char { c, font } => {
                     // optionally merge a run of same-font characters into one call
@@ -1876,32 +2378,237 @@ impl<'a> Renderer<'a> {
         }
     }
     fn dlist(&mut self, l: &[DNode]) {
-        for n in l {
-            match n {
-                DNode::Char { c, font } => self.chars(&c.to_string(), *font),
+        let mut i = 0;
+        while i < l.len() {
+            self.maybe_empty_chars();
+            match &l[i] {
+                DNode::Char { c, font } => {
+                    // `chars` adds one Char "for each character in the input string", here too
+                    let mut s = c.to_string();
+                    let mut j = i + 1;
+                    while j < l.len() {
+                        match &l[j] {
+                            DNode::Char { c: c2, font: f2 } if f2 == font && self.st.chance(2) => {
+                                s.push(*c2);
+                                j += 1;
+                            }
+                            _ => break,
+                        }
+                    }
+                    if j > i + 1 {
+                        self.feat.merged_chars_in_disc += 1;
+                    }
+                    self.chars(&s, *font);
+                    i = j;
+                    continue;
+                }
                 DNode::Kern(w) => self.call("kern", vec![Self::a("width", Val::Dim(*w), *w == 0)]),
                 DNode::HBox(b) => self.hbox(b),
                 DNode::VBox(b) => self.vbox(b),
                 DNode::Rule { h, w, d } => self.rule(*h, *w, *d),
                 DNode::Lig(l) => self.lig(l),
             }
+            i += 1;
         }
     }
 }
 
-fn render_styled(top: &Top, style: &[u8]) -> (String, Feat) {
-    let mut r = Renderer { out: String::new(), st: Style { bytes: style, pos: 0 }, feat: Feat::default(), big_sp: false };
-    r.big_sp = r.st.chance(8);
+/// Every finite dimension of a tree, in a fixed order.
+fn for_each_dim(top: &mut Top, f: &mut dyn FnMut(&mut i32)) {
+    fn glue(g: &mut GlueSpec, f: &mut dyn FnMut(&mut i32)) {
+        f(&mut g.w);
+        if g.sto % 4 == 0 {
+            f(&mut g.st);
+        }
+        if g.sho % 4 == 0 {
+            f(&mut g.sh);
+        }
+    }
+    fn rule(h: &mut i32, w: &mut i32, d: &mut i32, f: &mut dyn FnMut(&mut i32)) {
+        for v in [h, w, d] {
+            if *v != RUNNING {
+                f(v);
+            }
+        }
+    }
+    fn hbox(b: &mut HBoxSpec, f: &mut dyn FnMut(&mut i32)) {
+        f(&mut b.h);
+        f(&mut b.w);
+        f(&mut b.d);
+        f(&mut b.shift);
+        hl(&mut b.list, f);
+    }
+    fn vbox(b: &mut VBoxSpec, f: &mut dyn FnMut(&mut i32)) {
+        f(&mut b.h);
+        f(&mut b.w);
+        f(&mut b.d);
+        f(&mut b.shift);
+        vl(&mut b.list, f);
+    }
+    fn ins(i: &mut InsSpec, f: &mut dyn FnMut(&mut i32)) {
+        f(&mut i.height);
+        f(&mut i.split_max_depth);
+        glue(&mut i.skip, f);
+        vl(&mut i.vbox, f);
+    }
+    fn hl(l: &mut [HNode], f: &mut dyn FnMut(&mut i32)) {
+        for n in l {
+            match n {
+                HNode::Glue(g) => glue(g, f),
+                HNode::Kern(w) => f(w),
+                HNode::Rule { h, w, d } => rule(h, w, d, f),
+                HNode::Disc { pre, post, .. } => {
+                    dl(pre, f);
+                    dl(post, f);
+                }
+                HNode::HBox(b) => hbox(b, f),
+                HNode::VBox(b) => vbox(b, f),
+                HNode::Ins(i) => ins(i, f),
+                HNode::Adjust(v) => vl(v, f),
+                HNode::Char { .. } | HNode::Penalty(_) | HNode::Lig(_) | HNode::Mark | HNode::Math { .. } => {}
+            }
+        }
+    }
+    fn vl(l: &mut [VNode], f: &mut dyn FnMut(&mut i32)) {
+        for n in l {
+            match n {
+                VNode::Glue(g) => glue(g, f),
+                VNode::Kern(w) => f(w),
+                VNode::Rule { h, w, d } => rule(h, w, d, f),
+                VNode::HBox(b) => hbox(b, f),
+                VNode::VBox(b) => vbox(b, f),
+                VNode::Ins(i) => ins(i, f),
+                VNode::Penalty(_) | VNode::Mark | VNode::Math { .. } => {}
+            }
+        }
+    }
+    fn dl(l: &mut [DNode], f: &mut dyn FnMut(&mut i32)) {
+        for n in l {
+            match n {
+                DNode::Kern(w) => f(w),
+                DNode::Rule { h, w, d } => rule(h, w, d, f),
+                DNode::HBox(b) => hbox(b, f),
+                DNode::VBox(b) => vbox(b, f),
+                DNode::Char { .. } | DNode::Lig(_) => {}
+            }
+        }
+    }
     match top {
+        Top::H(l) => hl(l, f),
+        Top::V(l) => vl(l, f),
+    }
+}
+
+fn for_each_hbox(top: &mut Top, f: &mut dyn FnMut(&mut HBoxSpec)) {
+    fn hbox(b: &mut HBoxSpec, f: &mut dyn FnMut(&mut HBoxSpec)) {
+        f(b);
+        hl(&mut b.list, f);
+    }
+    fn hl(l: &mut [HNode], f: &mut dyn FnMut(&mut HBoxSpec)) {
+        for n in l {
+            match n {
+                HNode::HBox(b) => hbox(b, f),
+                HNode::VBox(b) => vl(&mut b.list, f),
+                HNode::Ins(i) => vl(&mut i.vbox, f),
+                HNode::Adjust(v) => vl(v, f),
+                HNode::Disc { pre, post, .. } => {
+                    dl(pre, f);
+                    dl(post, f);
+                }
+                _ => {}
+            }
+        }
+    }
+    fn vl(l: &mut [VNode], f: &mut dyn FnMut(&mut HBoxSpec)) {
+        for n in l {
+            match n {
+                VNode::HBox(b) => hbox(b, f),
+                VNode::VBox(b) => vl(&mut b.list, f),
+                VNode::Ins(i) => vl(&mut i.vbox, f),
+                _ => {}
+            }
+        }
+    }
+    fn dl(l: &mut [DNode], f: &mut dyn FnMut(&mut HBoxSpec)) {
+        for n in l {
+            match n {
+                DNode::HBox(b) => hbox(b, f),
+                DNode::VBox(b) => vl(&mut b.list, f),
+                _ => {}
+            }
+        }
+    }
+    match top {
+        Top::H(l) => hl(l, f),
+        Top::V(l) => vl(l, f),
+    }
+}
+
+/// What `render_styled` hands back.
+struct Rendered {
+    src: String,
+    feat: Feat,
+    /// the list the source denotes (the input tree with re-spelt values, see below)
+    meaning: Top,
+    /// the explicit CST the source must build
+    cst: XTree,
+}
+
+/// Writes `top` as source text in a style drawn from `style`. Two kinds of values are first moved to
+/// what the chosen spelling denotes, so that the expected meaning stays exact:
+/// * one finite dimension in five is re-spelt in one of TeX's other units (in pc cm mm bp dd cc) with 0-5
+///   decimals, and takes the value `tex_dimen` (TeX.2021.448-458) gives that numeral;
+/// * one positive glue ratio in four becomes negative (`"-0.25"`).
+fn render_styled(top: &Top, style: &[u8]) -> Rendered {
+    // the re-spelling pass reads the style stream from its end, the writer from its start
+    let rev: Vec<u8> = style.iter().rev().copied().collect();
+    let mut pre = Style { bytes: &rev, pos: 0 };
+    let mut meaning = top.clone();
+    let mut spell: std::collections::BTreeMap<i32, (String, usize)> = Default::default();
+    let mut feat = Feat::default();
+    for_each_dim(&mut meaning, &mut |v: &mut i32| {
+        if v.abs() > M30 || !pre.chance(5) {
+            return;
+        }
+        let unit = 1 + pre.pick(7);
+        let ndec = pre.pick(6);
+        let (int, frac) = numeral_in_unit(v.abs(), unit, ndec);
+        if let Some(m) = tex_dimen(&int, &frac, UNITS[unit].0) {
+            let neg = *v < 0;
+            let text = format!("{}{}{}{}{}", if neg { "-" } else { "" }, int, if ndec == 0 { "" } else { "." }, frac, UNITS[unit].0);
+            *v = if neg { -m } else { m };
+            spell.insert(*v, (text, unit));
+        }
+    });
+    for_each_hbox(&mut meaning, &mut |b: &mut HBoxSpec| {
+        if let Some(k) = exact_k(b.num, b.den) {
+            if k > 0 && pre.chance(4) {
+                b.num = -b.num;
+                feat.negative_ratio += 1;
+            }
+        }
+    });
+    let mut r = Renderer { out: String::new(), st: Style { bytes: style, pos: 0 }, feat, spell, pending: vec![], frames: vec![Frame { top: true, calls: vec![] }], after_comment_len: usize::MAX, comment_text_end: 0 };
+    match &meaning {
         Top::H(l) => r.hlist(l),
         Top::V(l) => r.vlist(l),
     }
-    r.gap();
-    // final newline unless the style asks for none (a comment on the last line then has no newline)
+    r.gap(Pos::Eof);
+    // final newline unless the style asks for none; a comment that ends the file then has no line end
+    // (the lexer ends a comment at a line feed only, so that comment is not part of the CST)
     if !r.st.chance(4) {
         r.out.push('\n');
+    } else {
+        r.feat.no_final_newline += 1;
+        if r.after_comment_len <= r.out.len() && r.out[r.after_comment_len..].trim().is_empty() {
+            r.out.truncate(r.comment_text_end);
+            r.pending.pop();
+            r.feat.comment_eof_no_newline += 1;
+        }
     }
-    (r.out, r.feat)
+    let fr = r.frames.pop().expect("top frame");
+    let cst = XTree { calls: fr.calls, trailing: std::mem::take(&mut r.pending) };
+    Rendered { src: r.out, feat: r.feat, meaning, cst }
 }
 
 #[derive(Clone, Debug, Serialize, Deserialize)]
@@ -1911,53 +2618,78 @@ pub struct StyledCase {
 }
 
 pub fn styled_strategy() -> BoxedStrategy<StyledCase> {
-    (top_strategy(false, false, 3, 5), proptest::collection::vec(any::<u8>(), 0..600)).prop_map(|(top, style)| StyledCase { top, style }).boxed()
+    (top_strategy(Prof::default(), 3, 5), proptest::collection::vec(any::<u8>(), 0..600)).prop_map(|(top, style)| StyledCase { top, style }).boxed()
+}
+
+/// The explicit CST of `src`: (tree in comparable form, its Display, Tree::build(tree.iter()) == tree, any error).
+fn explicit_cst(src: &str) -> (XTree, String, bool, bool) {
+    let errs: lang::ErrorAccumulator = Default::default();
+    let tree = cst::Tree::build(cst::parse(src, errs.clone()));
+    let again = cst::Tree::build(tree.iter());
+    (x_of_tree(&tree), format!("{}", tree), again == tree, !errs.is_empty())
 }
 
 fn format_oracle(ctx: &Ctx, c: &StyledCase, case: &mut Case) -> Verdict {
-    let st = Stats::of(&c.top);
-    if outside_domain(&st).is_some() || st.dim_out_of_lang_range || canon_top(&c.top, Deviations::default()).is_none() {
+    let st0 = Stats::of(&c.top);
+    if outside_domain(&st0).is_some() || st0.dim_out_of_lang_range || st0.uint_ge_2p31 || canon_top(&c.top, Deviations::default()).is_none() {
         return Verdict::Skip("outside the language's documented domain");
     }
-    let (src, feat) = render_styled(&c.top, &c.style);
+    let Rendered { src, feat, meaning, cst: want_cst } = render_styled(&c.top, &c.style);
+    let st = Stats::of(&meaning);
     case.note = Some(clip(&src, 600));
     case.class_if(feat.comments > 0, "has_comments");
+    for (i, name) in POS_CLASS.iter().enumerate() {
+        case.class_if(feat.comment_at[i] > 0, name);
+    }
+    case.class_if(feat.comment_generated_text > 0, "comment_generated_text");
+    case.class_if(feat.comment_crlf > 0, "comment_crlf_terminated");
+    case.class_if(feat.comment_eof_no_newline > 0, "comment_eof_without_newline");
+    case.class_if(feat.two_comments_in_a_row > 0, "two_comments_in_a_row");
+    case.class_if(feat.no_final_newline > 0, "no_final_newline");
+    case.class_if(feat.raw_newline_in_string > 0, "raw_newline_in_string");
     case.class_if(feat.blank_lines > 0, "has_blank_lines");
     case.class_if(feat.keyword_reordered > 0, "keywords_reordered");
     case.class_if(feat.positional_beyond_default > 0, "positional_where_printer_uses_keyword");
     case.class_if(feat.defaults_omitted > 0, "defaults_omitted");
     case.class_if(feat.no_commas > 0, "commas_omitted");
     case.class_if(feat.sp_units > 0, "sp_units");
+    case.class_if(feat.integer_form_dim > 0, "integer_form_dimension");
+    case.class_if(feat.integer_form_fil > 0, "integer_form_fil");
+    for (i, name) in ["", "unit_in", "unit_pc", "unit_cm", "unit_mm", "unit_bp", "unit_dd", "unit_cc"].iter().enumerate() {
+        case.class_if(i > 0 && feat.other_unit[i] > 0, name);
+    }
+    case.class_if(feat.negative_ratio > 0, "negative_glue_ratio_string");
     case.class_if(feat.unicode_escapes > 0, "unicode_escapes");
+    case.class_if(feat.unicode_escapes_upper_or_padded > 0, "unicode_escapes_upper_or_zero_padded");
     case.class_if(feat.merged_chars > 0, "merged_chars");
+    case.class_if(feat.merged_chars_in_disc > 0, "merged_chars_in_disc");
+    case.class_if(feat.empty_chars > 0, "empty_chars_call");
     case.class_if(st.depth >= 2, "depth>=2");
+    case.class_if(st.depth >= 3, "depth>=3");
     case.class_if(st.escape_char, "char_needs_escape");
     case.class_if(st.limit_value, "value_at_limit");
-    let top_is_h = matches!(c.top, Top::H(_));
-    let want = canon_top(&c.top, Deviations::default()).unwrap();
+    let top_is_h = matches!(meaning, Top::H(_));
+    let want = canon_top(&meaning, Deviations::default()).expect("re-spelt values stay in range");
 
     // 1. the styled source means the tree it was rendered from
-    // The only excusable panic here: the listed lexer overflow on `<n>sp` with n >= 32768.
-    let allow = feat.sp_ge_32768 > 0;
-    case.class_if(allow, "sp_value>=32768");
-    let got = match parse_as(ctx, top_is_h, &src, allow) {
+    let got = match parse_as(ctx, top_is_h, &src) {
         Ok(Ok(g)) => g,
-        Ok(Err(e)) => return Verdict::Fail(format!("a source written in the documented syntax does not parse: {e}\n  source:\n{}", clip(&src, 2000))),
+        Ok(Err(e)) => return Verdict::Fail(format!("a source written in the documented syntax does not parse: {}\n  source:\n{}", e.text, clip(&src, 2000))),
         Err(v) => return v,
     };
     if got != want {
         return Verdict::Fail(format!("the source parses to a different list than the one it was written from\n  {}\n  source:\n{}", first_diff(&format!("{:?}", want), &format!("{:?}", got)), clip(&src, 2000)));
     }
     // 2. format is defined on it and idempotent
-    let f1 = match guard(ctx, "format", &src, false, || format_src(&src)) {
+    let f1 = match guard(ctx, "format", &src, || format_src(&src)) {
         Ok(Parsed::Ok(s)) => s,
-        Ok(Parsed::Errs(n, s)) => return Verdict::Fail(format!("format rejects a source that parses: {n} errors {s}\n  source:\n{}", clip(&src, 2000))),
+        Ok(Parsed::Errs(n, s, _)) => return Verdict::Fail(format!("format rejects a source that parses: {n} errors {s}\n  source:\n{}", clip(&src, 2000))),
         Ok(Parsed::Bad(m)) => return Verdict::Fail(format!("format: {m}\n  source:\n{}", clip(&src, 2000))),
         Err(v) => return v,
     };
-    let f2 = match guard(ctx, "format∘format", &f1, false, || format_src(&f1)) {
+    let f2 = match guard(ctx, "format∘format", &f1, || format_src(&f1)) {
         Ok(Parsed::Ok(s)) => s,
-        Ok(Parsed::Errs(n, s)) => return Verdict::Fail(format!("format(s) is rejected by format: {n} errors {s}\n  source:\n{}\n  format(s):\n{}", clip(&src, 1500), clip(&f1, 1500))),
+        Ok(Parsed::Errs(n, s, _)) => return Verdict::Fail(format!("format(s) is rejected by format: {n} errors {s}\n  source:\n{}\n  format(s):\n{}", clip(&src, 1500), clip(&f1, 1500))),
         Ok(Parsed::Bad(m)) => return Verdict::Fail(format!("format∘format: {m}")),
         Err(v) => return v,
     };
@@ -1965,15 +2697,34 @@ fn format_oracle(ctx: &Ctx, c: &StyledCase, case: &mut Case) -> Verdict {
         return Verdict::Fail(format!("format is not idempotent\n  {}\n  source:\n{}\n  format(s):\n{}", first_diff(&f1, &f2), clip(&src, 1500), clip(&f1, 1500)));
     }
     // 3. formatting does not change the meaning
-    let got2 = match parse_as(ctx, top_is_h, &f1, false) {
+    let got2 = match parse_as(ctx, top_is_h, &f1) {
         Ok(Ok(g)) => g,
-        Ok(Err(e)) => return Verdict::Fail(format!("format(s) does not parse: {e}\n  source:\n{}\n  format(s):\n{}", clip(&src, 1500), clip(&f1, 1500))),
+        Ok(Err(e)) => return Verdict::Fail(format!("format(s) does not parse: {}\n  source:\n{}\n  format(s):\n{}", e.text, clip(&src, 1500), clip(&f1, 1500))),
         Err(v) => return v,
     };
     if got2 != want {
         return Verdict::Fail(format!("parse(format(s)) != parse(s)\n  {}\n  source:\n{}\n  format(s):\n{}", first_diff(&format!("{:?}", want), &format!("{:?}", got2)), clip(&src, 1500), clip(&f1, 1500)));
     }
-    let perturbed = feat.comments + feat.blank_lines + feat.keyword_reordered + feat.positional_beyond_default + feat.defaults_omitted + feat.no_commas + feat.sp_units + feat.unicode_escapes > 0;
+    // 4. the explicit CST (cst::Tree): structure and comment attribution as cst.rs documents them, its
+    //    Display (= pretty_print of tree.iter()) is the formatter's output, and iter() rebuilds the tree
+    match guard(ctx, "cst::Tree::build / iter / Display", &src, || explicit_cst(&src)) {
+        Ok((x, shown, rebuilt_equal, errors)) => {
+            if errors {
+                return Verdict::Fail(format!("cst::parse reports errors for a source that parses\n  source:\n{}", clip(&src, 2000)));
+            }
+            if x != want_cst {
+                return Verdict::Fail(format!("the explicit CST (cst::Tree::build) differs from the structure the source was written with\n  {}\n  source:\n{}", first_diff(&format!("{:?}", want_cst), &format!("{:?}", x)), clip(&src, 2000)));
+            }
+            if shown != f1 {
+                return Verdict::Fail(format!("Display of the explicit CST differs from lang::format of the same source\n  {}\n  source:\n{}", first_diff(&f1, &shown), clip(&src, 2000)));
+            }
+            if !rebuilt_equal {
+                return Verdict::Fail(format!("Tree::build(tree.iter()) != tree\n  source:\n{}", clip(&src, 2000)));
+            }
+        }
+        Err(v) => return v,
+    }
+    let perturbed = feat.comments + feat.blank_lines + feat.keyword_reordered + feat.positional_beyond_default + feat.defaults_omitted + feat.no_commas + feat.sp_units + feat.unicode_escapes + feat.integer_form_dim + feat.integer_form_fil + feat.negative_ratio + feat.empty_chars + feat.other_unit.iter().sum::<usize>() > 0;
     Verdict::pass(perturbed && st.nontrivial())
 }
 
@@ -1986,46 +2737,47 @@ const WOLF_HALL_PENALTIES: &str = include_str!("/repo/crates/boxworks-bin/tests/
 
 /// Box-language texts used by the repository's own tests (doc tests of lang/mod.rs, the
 /// formatter example, boxworks-text / boxworks-hyphenate / boxworks-testing goldens).
-const INLINE_SEEDS: &[&str] = &[
-    "chars(\"Box\")\nglue(1pt, 5fil, 0.075in)\nchars(\"A\")\nkern(-0.1pt)\nchars(\"V\")\n",
-    "chars(\"A\", 1)",
-    "chars(font=2, content=\"B\")",
-    "chars(\"C\", font=3)",
-    "# This is a\n#  list of things\nhlist\n\n        (\n    1.0pt, height =2.0pt,\n\n    contents = [ # glue is good\n        glue(  ) \n    \nchars(\"Hello\", font = \n# we use an unusual font here\n1)\n\n    chars(\"Hello\", font =  \n\n\n    0) chars(\"World\")] ,\n        # Infinite glue\n    other=3.0fill,\n    # there are no more arguments\n)\n",
-    "hbox(\n    width=1pt,\n    content=[chars(\"Hello\")],\n)\n",
-    "vbox(\n  content=[\n    hbox(\n      content=[\n        chars(\"AZ\", 33)\n      ]\n    )\n  ]\n)\n",
-    "chars(\"a\")\ndisc(\n  pre_break=[\n    chars(\"-\")\n  ],\n)\nchars(\"b\")\n",
-    "disc(\n  pre_break=[\n    chars(\"a\")\n    lig(\"x\", \"\")\n    chars(\"-\")\n  ],\n  replace_count=1,\n)\nchars(\"a\")\nchars(\"b\")\n",
-    "lig(\"\\u{b}\", \"ff\")\nlig(\"\\u{e}\", \"ffi\")\n",
-    "lig(\"$\", \"\", includes_left_boundary=\"true\")\nchars(\"123\")\nlig(\"#\", \"\")\nchars(\"B\")\nlig(\"#\", \"\", includes_right_boundary=\"true\")\n",
-    "chars(\"A\")\nkern(-1.11113pt)\nchars(\"V\")\n",
-    "a(b=[c()])",
-    "a(b=[#X\n])",
-    "lig(\"\\\"\")lig(\"\\\"\")lig(\"\\\\\")lig(\"\\\\\")chars()",
-    "f#X\n(3,key#Y\n=4#Z\n,#W\n)",
-    "rule(\"running\", 1pt, \"running\")\nmark()\nadjust(content=[kern(1pt)])\nmath(\"after\")\ninsertion(3, height=1pt, vbox=[glue(1pt, 2fill, 3filll)])\n",
+/// (text, parses as a horizontal list: false where the function names exist at the CST level only)
+const INLINE_SEEDS: &[(&str, bool)] = &[
+    ("chars(\"Box\")\nglue(1pt, 5fil, 0.075in)\nchars(\"A\")\nkern(-0.1pt)\nchars(\"V\")\n", true),
+    ("chars(\"A\", 1)", true),
+    ("chars(font=2, content=\"B\")", true),
+    ("chars(\"C\", font=3)", true),
+    ("# This is a\n#  list of things\nhlist\n\n        (\n    1.0pt, height =2.0pt,\n\n    contents = [ # glue is good\n        glue(  ) \n    \nchars(\"Hello\", font = \n# we use an unusual font here\n1)\n\n    chars(\"Hello\", font =  \n\n\n    0) chars(\"World\")] ,\n        # Infinite glue\n    other=3.0fill,\n    # there are no more arguments\n)\n", false),
+    ("hbox(\n    width=1pt,\n    content=[chars(\"Hello\")],\n)\n", true),
+    ("vbox(\n  content=[\n    hbox(\n      content=[\n        chars(\"AZ\", 33)\n      ]\n    )\n  ]\n)\n", true),
+    ("chars(\"a\")\ndisc(\n  pre_break=[\n    chars(\"-\")\n  ],\n)\nchars(\"b\")\n", true),
+    ("disc(\n  pre_break=[\n    chars(\"a\")\n    lig(\"x\", \"\")\n    chars(\"-\")\n  ],\n  replace_count=1,\n)\nchars(\"a\")\nchars(\"b\")\n", true),
+    ("lig(\"\\u{b}\", \"ff\")\nlig(\"\\u{e}\", \"ffi\")\n", true),
+    ("lig(\"$\", \"\", includes_left_boundary=\"true\")\nchars(\"123\")\nlig(\"#\", \"\")\nchars(\"B\")\nlig(\"#\", \"\", includes_right_boundary=\"true\")\n", true),
+    ("chars(\"A\")\nkern(-1.11113pt)\nchars(\"V\")\n", true),
+    ("a(b=[c()])", false),
+    ("a(b=[#X\n])", false),
+    ("lig(\"\\\"\")lig(\"\\\"\")lig(\"\\\\\")lig(\"\\\\\")chars()", true),
+    ("f#X\n(3,key#Y\n=4#Z\n,#W\n)", false),
+    ("rule(\"running\", 1pt, \"running\")\nmark()\nadjust(content=[kern(1pt)])\nmath(\"after\")\ninsertion(3, height=1pt, vbox=[glue(1pt, 2fill, 3filll)])\n", true),
 ];
 
-fn seeds() -> Vec<(String, bool)> {
-    // (text, expected to parse as a horizontal list)
-    let mut v: Vec<(String, bool)> = vec![(ALL_ERRORS_BOX.to_string(), false)];
+fn seeds() -> Vec<(String, Option<bool>)> {
+    // (text, expected to parse as a horizontal list, where the repository states it)
+    let mut v: Vec<(String, Option<bool>)> = vec![(ALL_ERRORS_BOX.to_string(), Some(false))];
+    // the paragraphs of the sample file one by one (nothing is demanded of a single paragraph: a
+    // comment-only paragraph added upstream parses)
     for para in ALL_ERRORS_BOX.split("\n\n") {
-        v.push((format!("{}\n", para), false));
+        v.push((format!("{}\n", para), None));
     }
     // one paragraph (vbox) and single lines (hbox) of the TeX-verified goldens
     for big in [WOLF_HALL, WOLF_HALL_PENALTIES] {
-        v.push((big.to_string(), true));
+        v.push((big.to_string(), Some(true)));
         let lines: Vec<&str> = big.lines().collect();
         let starts: Vec<usize> = lines.iter().enumerate().filter(|(_, l)| l.starts_with("    hbox(")).map(|(i, _)| i).collect();
         for w in starts.windows(2).take(4) {
             let block: Vec<String> = lines[w[0]..w[1]].iter().map(|l| l.trim_start().to_string()).collect();
-            v.push((block.join("\n") + "\n", true));
+            v.push((block.join("\n") + "\n", Some(true)));
         }
     }
-    for (i, s) in INLINE_SEEDS.iter().enumerate() {
-        // seeds 4, 12, 13, 15 use function names that only exist at the CST level
-        let ok = !matches!(i, 4 | 12 | 13 | 15);
-        v.push((s.to_string(), ok));
+    for (s, ok) in INLINE_SEEDS.iter() {
+        v.push((s.to_string(), Some(*ok)));
     }
     v
 }
@@ -2050,7 +2802,7 @@ const NUMBERS: &[&str] = &[
     "16383.999999999pt", "32767.99998pt", "32768pt", "-32768.0pt", "1073741823sp", "1073741824sp", "-1073741824sp", "99999999999sp", "2147483647sp", "32767.99998fil", "32768fil",
     "-32768.0fill", "99999999999filll", "1.1.1pt", "1.", "1.5", "1e5pt", "0x10", "1truept", "5fillll", "1fi", "-", "--1", "-.5pt", ".5pt", "5.pt", "1.00000000000000000000000001pt",
     "0.999999999999999999999pt", "007", "-0", "-0pt", "1pT", "1PT", "1in", "226.74in", "226.75in", "16383cc", "1280cc", "5000000dd", "576cm", "5760mm", "1365pc", "1366pc", "16322bp",
-    "16323bp", "0.0000076293945312sp", "1.5sp", "3_pt", "1p", "1ptt", "12345678901pt", "4294967296", "0.5fil", "-0.00001fil", "1_",
+    "16323bp", "0.0000076293945312sp", "1.5sp", "3_pt", "1p", "1ptt", "12345678901pt", "4294967296", "0.5fil", "-0.00001fil", "1_", "-1", "-2", "255", "256", "-256", "4294967295", "65536", "2.04in", "0.075in", "-10sp", "1fil", "-2fill", "3filll",
 ];
 
 const STRINGS: &[&str] = &[
@@ -2130,7 +2882,7 @@ fn mutate(text: &str, muts: &[Mut]) -> String {
         let i = at(pos);
         let j = at(aux);
         let ins = |p: u16| -> usize { ((p as usize) * (toks.len() + 1)) >> 16 };
-        match kind % 14 {
+        match kind % 16 {
             0 => {
                 if i < toks.len() {
                     toks.remove(i);
@@ -2224,11 +2976,20 @@ fn mutate(text: &str, muts: &[Mut]) -> String {
                     toks.remove(i - 1);
                 }
             }
-            _ => {
+            13 => {
                 // replace a token by a comment without newline / with CR
                 if i < toks.len() {
                     toks[i] = ["# c", "#\r", "#\"", "# (\n"][(aux % 4) as usize].to_string();
                 }
+            }
+            14 => {
+                // a comment as the last thing of the file, without a line end
+                toks.push([" # eof", "#", "\n#\r", " #\"("][(aux % 4) as usize].to_string());
+            }
+            _ => {
+                // a file with CRLF line ends
+                let all: String = toks.concat();
+                toks = tokenize(&all.replace("\r\n", "\n").replace('\n', "\r\n"));
             }
         }
     }
@@ -2236,7 +2997,7 @@ fn mutate(text: &str, muts: &[Mut]) -> String {
 }
 
 fn muts_strategy() -> BoxedStrategy<Vec<Mut>> {
-    proptest::collection::vec((0u8..14, any::<u16>(), any::<u16>()), 1..5).boxed()
+    proptest::collection::vec((0u8..16, any::<u16>(), any::<u16>()), 1..5).boxed()
 }
 
 fn safe_print(top: &Top) -> String {
@@ -2261,7 +3022,7 @@ pub fn text_strategy() -> BoxedStrategy<TextCase> {
         }
         TextCase { origin: "soup".into(), text: s }
     });
-    let small_tree = top_strategy(false, false, 2, 3);
+    let small_tree = top_strategy(Prof::default(), 2, 3);
     let numeric = (sel(vec!["kern(@)", "glue(@, @, @)", "glue(0pt, @)", "penalty(@)", "chars(\"a\", @)", "rule(@, \"running\")", "hbox(width=@, glue_ratio=\"@\")", "hbox(glue_ratio=@)", "insertion(@, float_penalty=@)", "disc(replace_count=@)", "lig(@)", "chars(@)", "math(@)", "hbox(content=[kern(@)])", "@"]), proptest::collection::vec(0..(NUMBERS.len() + STRINGS.len()), 3))
         .prop_map(|(tpl, picks)| {
             let mut s = String::new();
@@ -2281,7 +3042,7 @@ pub fn text_strategy() -> BoxedStrategy<TextCase> {
         3 => soup,
         4 => (0..n_seeds, muts_strategy()).prop_map(move |(i, m)| TextCase { origin: "golden_mutated".into(), text: mutate(&st[i], &m) }),
         4 => (small_tree.clone(), muts_strategy()).prop_map(|(t, m)| TextCase { origin: "pretty_mutated".into(), text: mutate(&safe_print(&t), &m) }),
-        2 => (small_tree, proptest::collection::vec(any::<u8>(), 0..200), muts_strategy()).prop_map(|(t, style, m)| TextCase { origin: "styled_mutated".into(), text: mutate(&render_styled(&t, &style).0, &m) }),
+        2 => (small_tree, proptest::collection::vec(any::<u8>(), 0..200), muts_strategy()).prop_map(|(t, style, m)| TextCase { origin: "styled_mutated".into(), text: mutate(&render_styled(&t, &style).src, &m) }),
         3 => numeric,
     ]
     .boxed()
@@ -2302,13 +3063,102 @@ fn bracket_depth(s: &str) -> usize {
     m
 }
 
-/// An error list that is empty or carries a span outside the source. Excused only by the listed
-/// `\u`-without-brace defect, and only on texts that contain such an escape.
-fn bad_location(ctx: &Ctx, text: &str, what: &str, m: &str) -> Verdict {
-    if has_u_escape_without_brace(text) && ctx.known(FLAG_U_ESCAPE) {
-        return Verdict::Known(FLAG_U_ESCAPE.into());
-    }
+fn bad_location(text: &str, what: &str, m: &str) -> Verdict {
     Verdict::Fail(format!("{what}: {m}\n  text: {}", clip(text, 1500)))
+}
+
+const UNIT_CLASSES: [(&str, &str); 12] = [
+    ("pt", "numeral_unit_pt"),
+    ("sp", "numeral_unit_sp"),
+    ("in", "numeral_unit_in"),
+    ("pc", "numeral_unit_pc"),
+    ("cm", "numeral_unit_cm"),
+    ("mm", "numeral_unit_mm"),
+    ("bp", "numeral_unit_bp"),
+    ("dd", "numeral_unit_dd"),
+    ("cc", "numeral_unit_cc"),
+    ("fil", "numeral_unit_fil"),
+    ("fill", "numeral_unit_fill"),
+    ("filll", "numeral_unit_filll"),
+];
+
+/// Which units occur directly after a digit or decimal point (bit i = UNIT_CLASSES[i]); one pass.
+fn units_in(text: &str) -> u32 {
+    let b = text.as_bytes();
+    let mut found = 0u32;
+    let mut i = 0;
+    while i < b.len() {
+        if (b[i].is_ascii_digit() || b[i] == b'.') && i + 1 < b.len() && b[i + 1].is_ascii_alphabetic() {
+            let start = i + 1;
+            let mut j = start;
+            while j < b.len() && (b[j].is_ascii_alphabetic() || b[j] == b'_') {
+                j += 1;
+            }
+            if let Some(k) = UNIT_CLASSES.iter().position(|(u, _)| u.as_bytes() == &b[start..j]) {
+                found |= 1 << k;
+            }
+            i = j;
+        } else {
+            i += 1;
+        }
+    }
+    found
+}
+
+/// What the horizontal / vertical parser made of a text.
+enum Outcome<L> {
+    List(L),
+    Errors,
+}
+
+fn outcome_h(ctx: &Ctx, text: &str, what: &str) -> Result<Outcome<Vec<HNode>>, Verdict> {
+    let p = guard(ctx, what, text, || match parse_h(text) {
+        Parsed::Ok(l) => Parsed::Ok(h_from_ds(&l)),
+        Parsed::Errs(n, s, k) => Parsed::Errs(n, s, k),
+        Parsed::Bad(m) => Parsed::Bad(m),
+    })?;
+    match p {
+        Parsed::Ok(Ok(l)) => Ok(Outcome::List(l)),
+        Parsed::Ok(Err(e)) => Err(Verdict::Fail(format!("{what} produced a node the language has no syntax for: {e}\n  text: {}", clip(text, 1500)))),
+        Parsed::Errs(..) => Ok(Outcome::Errors),
+        Parsed::Bad(m) => Err(bad_location(text, what, &m)),
+    }
+}
+
+fn outcome_v(ctx: &Ctx, text: &str, what: &str) -> Result<Outcome<Vec<VNode>>, Verdict> {
+    let p = guard(ctx, what, text, || match parse_v(text) {
+        Parsed::Ok(l) => Parsed::Ok(v_from_ds(&l)),
+        Parsed::Errs(n, s, k) => Parsed::Errs(n, s, k),
+        Parsed::Bad(m) => Parsed::Bad(m),
+    })?;
+    match p {
+        Parsed::Ok(Ok(l)) => Ok(Outcome::List(l)),
+        Parsed::Ok(Err(e)) => Err(Verdict::Fail(format!("{what} produced a node the language has no syntax for: {e}\n  text: {}", clip(text, 1500)))),
+        Parsed::Errs(..) => Ok(Outcome::Errors),
+        Parsed::Bad(m) => Err(bad_location(text, what, &m)),
+    }
+}
+
+/// "Printing any list and parsing the text back yields an equal list" for a list the PARSER produced
+/// (every such list consists of values the language expressed).
+fn reparse_parsed(ctx: &Ctx, top: Top, text: &str, case: &mut Case) -> Result<(), Verdict> {
+    let tc = TreeCase { profile: "parsed".into(), top };
+    let mut c2 = Case::default();
+    let v = roundtrip_oracle(ctx, &tc, &mut c2);
+    for c in c2.classes {
+        if c.starts_with("accepted:") || c == "font_or_count>=2^31" || c == "integer=-2^31" || c.contains("outside the quantifier") {
+            case.class(match c {
+                "font_or_count>=2^31" => "parsed_font_or_count>=2^31",
+                "integer=-2^31" => "parsed_integer=-2^31",
+                other => other,
+            });
+        }
+    }
+    match v {
+        Verdict::Fail(m) => Err(Verdict::Fail(format!("a list the parser produced does not survive print + parse\n  source text: {}\n  {m}", clip(text, 800)))),
+        Verdict::Known(s) => Err(Verdict::Known(s)),
+        _ => Ok(()),
+    }
 }
 
 fn text_oracle(ctx: &Ctx, t: &TextCase, case: &mut Case, expect_ok: Option<bool>) -> Verdict {
@@ -2321,125 +3171,451 @@ fn text_oracle(ctx: &Ctx, t: &TextCase, case: &mut Case, expect_ok: Option<bool>
         "styled_mutated" => "origin_styled_mutated",
         "numeric_probe" => "origin_numeric_probe",
         "golden" => "origin_golden",
+        "scale" => "origin_scale_probe",
         _ => "origin_other",
     });
     let depth = bracket_depth(text);
     let has_limit = NUMBERS[..24].iter().any(|n| text.contains(n));
     case.class_if(depth >= 2, "bracket_depth>=2");
+    case.class_if(depth >= 8, "bracket_depth>=8");
     case.class_if(text.contains('\\'), "has_backslash");
     case.class_if(!text.is_ascii(), "has_non_ascii");
     case.class_if(has_limit, "has_limit_numeral");
+    case.class_if(text.contains("\r\n"), "has_crlf");
+    case.class_if(text.rsplit('\n').next().map(|l| l.contains('#')).unwrap_or(false), "last_line_has_hash_without_newline");
+    if text.len() < 4096 {
+        let found = units_in(text);
+        for (k, (_, name)) in UNIT_CLASSES.iter().enumerate() {
+            case.class_if(found & (1 << k) != 0, name);
+        }
+    }
     let nontrivial = depth >= 2 || text.contains('\\') || !text.is_ascii() || has_limit;
 
-    // horizontal parser
-    let h = match guard(ctx, "parse_horizontal_list", text, true, || match parse_h(text) {
-        Parsed::Ok(l) => Parsed::Ok(h_from_ds(&l)),
-        Parsed::Errs(n, s) => Parsed::Errs(n, s),
-        Parsed::Bad(m) => Parsed::Bad(m),
-    }) {
-        Ok(p) => p,
-        Err(v) => return v,
-    };
-    let h_list = match h {
-        Parsed::Ok(Ok(l)) => {
+    // horizontal and vertical parser: a list or located errors
+    let h_list = match outcome_h(ctx, text, "parse_horizontal_list") {
+        Ok(Outcome::List(l)) => {
             case.class("h_parse_ok");
             Some(l)
         }
-        Parsed::Ok(Err(e)) => return Verdict::Fail(format!("parse_horizontal_list produced a node the language has no syntax for: {e}\n  text: {}", clip(text, 1500))),
-        Parsed::Errs(..) => {
+        Ok(Outcome::Errors) => {
             case.class("h_parse_errors");
             None
         }
-        Parsed::Bad(m) => return bad_location(ctx, text, "parse_horizontal_list", &m),
+        Err(v) => return v,
     };
     if let Some(want_ok) = expect_ok {
         if want_ok != h_list.is_some() {
             return Verdict::Fail(format!("golden text: expected parse success = {want_ok}\n  text: {}", clip(text, 600)));
         }
     }
-    // vertical parser
-    match guard(ctx, "parse_vbox_using_cst", text, true, || match parse_v(text) {
-        Parsed::Ok(l) => Parsed::Ok(v_from_ds(&l).map(|_| ())),
-        Parsed::Errs(n, s) => Parsed::Errs(n, s),
-        Parsed::Bad(m) => Parsed::Bad(m),
-    }) {
-        Ok(Parsed::Ok(Ok(()))) => case.class("v_parse_ok"),
-        Ok(Parsed::Ok(Err(e))) => return Verdict::Fail(format!("parse_vbox_using_cst produced a node the language has no syntax for: {e}")),
-        Ok(Parsed::Errs(..)) => {}
-        Ok(Parsed::Bad(m)) => return bad_location(ctx, text, "parse_vbox_using_cst", &m),
+    let v_list = match outcome_v(ctx, text, "parse_vbox_using_cst") {
+        Ok(Outcome::List(l)) => {
+            case.class("v_parse_ok");
+            Some(l)
+        }
+        Ok(Outcome::Errors) => None,
         Err(v) => return v,
+    };
+    // what the parser produced can be printed and read back
+    let mut known: Option<Verdict> = None;
+    if let Some(l) = &h_list {
+        match reparse_parsed(ctx, Top::H(l.clone()), text, case) {
+            Ok(()) => case.class_if(!l.is_empty(), "parsed_h_list_printed_and_reparsed"),
+            Err(v @ Verdict::Known(_)) => known = Some(v),
+            Err(v) => return v,
+        }
     }
-    // Does the text have errors at the lexer/CST level (the only level `format` works at)?
-    let cst_errors = match guard(ctx, "cst::parse", text, true, || {
+    if let Some(l) = &v_list {
+        // (an empty vertical list says nothing new)
+        if !l.is_empty() {
+            match reparse_parsed(ctx, Top::V(l.clone()), text, case) {
+                Ok(()) => case.class("parsed_v_list_printed_and_reparsed"),
+                Err(v @ Verdict::Known(_)) => known = Some(v),
+                Err(v) => return v,
+            }
+        }
+    }
+    // The explicit CST: cst::Tree::build is total, iter() rebuilds the same tree (the repository's
+    // convert_test states this for every tree), errors are located.
+    let (cst_shown, cst_errors) = match guard(ctx, "cst::Tree::build / iter / Display", text, || {
         let errs: lang::ErrorAccumulator = Default::default();
-        let _tree = cst::Tree::build(cst::parse(text, errs.clone()));
-        match errs.check() {
+        let tree = cst::Tree::build(cst::parse(text, errs.clone()));
+        let rebuilt_equal = cst::Tree::build(tree.iter()) == tree;
+        let shown = format!("{}", tree);
+        let e = match errs.check() {
             Ok(()) => Ok(false),
             Err(e) => check_errors(text, &e).map(|_| true),
-        }
+        };
+        (shown, rebuilt_equal, e)
     }) {
-        Ok(Ok(b)) => b,
-        Ok(Err(m)) => return bad_location(ctx, text, "cst::parse", &m),
+        Ok((_, false, _)) => return Verdict::Fail(format!("Tree::build(tree.iter()) != tree for tree = Tree::build(cst::parse(text))\n  text: {}", clip(text, 1500))),
+        Ok((shown, true, Ok(b))) => (shown, b),
+        Ok((_, _, Err(m))) => return bad_location(text, "cst::parse", &m),
         Err(v) => return v,
     };
     case.class_if(cst_errors, "syntax_errors");
-    if h_list.is_some() && cst_errors {
-        return Verdict::Fail(format!("parse_horizontal_list accepts a text for which cst::parse reports errors\n  text: {}", clip(text, 1500)));
-    }
-    // formatter: total; Err exactly on syntax errors; on success idempotent and meaning preserving
-    let f1 = match guard(ctx, "format", text, true, || format_src(text)) {
+    // (today every list the parser accepts is free of CST errors; nothing in the property demands it)
+    case.class_if(h_list.is_some() && cst_errors, "h_parse_ok_despite_cst_errors");
+    // formatter: total; where it answers, idempotent and meaning preserving; it answers for every text
+    // that parses
+    let f1 = match guard(ctx, "format", text, || format_src(text)) {
         Ok(Parsed::Ok(s)) => {
-            if cst_errors {
-                // `format` returned Ok(..) for a text with syntax errors: its output is not a
-                // rendering of the input (tokens were skipped), so the meaning changed.
-                if ctx.known(FLAG_FORMAT_ERRS) {
-                    return Verdict::Known(FLAG_FORMAT_ERRS.into());
-                }
-                return Verdict::Fail(format!("format returns Ok for a text with syntax errors (the errors are dropped and the output differs in meaning)\n  text: {}\n  format(text): {}", clip(text, 1200), clip(&s, 1200)));
-            }
+            case.class_if(cst_errors, "format_ok_despite_cst_errors");
             s
         }
         Ok(Parsed::Errs(..)) => {
-            if !cst_errors {
-                return Verdict::Fail(format!("format rejects a text without syntax errors\n  text: {}", clip(text, 1500)));
+            if h_list.is_some() || v_list.is_some() {
+                return Verdict::Fail(format!("format rejects a text that parses\n  text: {}", clip(text, 1500)));
             }
-            return Verdict::pass(nontrivial);
+            case.class_if(!cst_errors, "format_rejects_without_cst_errors");
+            return known.unwrap_or(Verdict::pass(nontrivial));
         }
         Ok(Parsed::Bad(m)) => return Verdict::Fail(format!("format: {m}\n  text: {}", clip(text, 1500))),
         Err(v) => return v,
     };
     case.class("format_ok");
-    match guard(ctx, "format∘format", &f1, true, || format_src(&f1)) {
+    if !cst_errors && cst_shown != f1 {
+        return Verdict::Fail(format!("Display of the explicit CST (Tree::build + iter) differs from lang::format of the same text\n  {}\n  text: {}", first_diff(&f1, &cst_shown), clip(text, 1200)));
+    }
+    match guard(ctx, "format∘format", &f1, || format_src(&f1)) {
         Ok(Parsed::Ok(f2)) => {
             if f2 != f1 {
                 return Verdict::Fail(format!("format is not idempotent\n  {}\n  text: {}\n  format(text): {}", first_diff(&f1, &f2), clip(text, 1200), clip(&f1, 1200)));
             }
         }
-        Ok(Parsed::Errs(n, s)) => return Verdict::Fail(format!("format(text) is rejected by format ({n} errors {s})\n  text: {}\n  format(text): {}", clip(text, 1200), clip(&f1, 1200))),
+        Ok(Parsed::Errs(n, s, _)) => return Verdict::Fail(format!("format(text) is rejected by format ({n} errors {s})\n  text: {}\n  format(text): {}", clip(text, 1200), clip(&f1, 1200))),
         Ok(Parsed::Bad(m)) => return Verdict::Fail(format!("format∘format: {m}")),
         Err(v) => return v,
     }
-    let h2 = match guard(ctx, "parse_horizontal_list∘format", &f1, true, || match parse_h(&f1) {
-        Parsed::Ok(l) => Parsed::Ok(h_from_ds(&l)),
-        Parsed::Errs(n, s) => Parsed::Errs(n, s),
-        Parsed::Bad(m) => Parsed::Bad(m),
-    }) {
-        Ok(p) => p,
+    // "does not change what the text parses to": as a horizontal and as a vertical list
+    let h2 = match outcome_h(ctx, &f1, "parse_horizontal_list∘format") {
+        Ok(o) => o,
         Err(v) => return v,
     };
-    match (h_list, h2) {
-        (Some(a), Parsed::Ok(Ok(b))) => {
-            if a != b {
+    match (&h_list, h2) {
+        (Some(a), Outcome::List(b)) => {
+            if *a != b {
                 return Verdict::Fail(format!("parse(format(text)) != parse(text)\n  {}\n  text: {}\n  format(text): {}", first_diff(&format!("{:?}", a), &format!("{:?}", b)), clip(text, 1200), clip(&f1, 1200)));
             }
         }
-        (None, Parsed::Errs(..)) => {}
-        (Some(_), Parsed::Errs(n, s)) => return Verdict::Fail(format!("text parses but format(text) does not ({n} errors {s})\n  text: {}\n  format(text): {}", clip(text, 1200), clip(&f1, 1200))),
-        (None, Parsed::Ok(_)) => return Verdict::Fail(format!("text has parse errors but format(text) parses\n  text: {}\n  format(text): {}", clip(text, 1200), clip(&f1, 1200))),
-        (_, Parsed::Ok(Err(e))) => return Verdict::Fail(format!("inexpressible node after format: {e}")),
-        (_, Parsed::Bad(m)) => return Verdict::Fail(format!("parse∘format: {m}")),
+        (None, Outcome::Errors) => {}
+        (Some(_), Outcome::Errors) => return Verdict::Fail(format!("text parses but format(text) does not\n  text: {}\n  format(text): {}", clip(text, 1200), clip(&f1, 1200))),
+        (None, Outcome::List(_)) => return Verdict::Fail(format!("text has parse errors but format(text) parses\n  text: {}\n  format(text): {}", clip(text, 1200), clip(&f1, 1200))),
     }
-    Verdict::pass(nontrivial)
+    let v2 = match outcome_v(ctx, &f1, "parse_vbox_using_cst∘format") {
+        Ok(o) => o,
+        Err(v) => return v,
+    };
+    match (&v_list, v2) {
+        (Some(a), Outcome::List(b)) => {
+            if *a != b {
+                return Verdict::Fail(format!("as a vertical list: parse(format(text)) != parse(text)\n  {}\n  text: {}\n  format(text): {}", first_diff(&format!("{:?}", a), &format!("{:?}", b)), clip(text, 1200), clip(&f1, 1200)));
+            }
+        }
+        (None, Outcome::Errors) => {}
+        (Some(_), Outcome::Errors) => return Verdict::Fail(format!("text parses as a vertical list but format(text) does not\n  text: {}\n  format(text): {}", clip(text, 1200), clip(&f1, 1200))),
+        (None, Outcome::List(_)) => return Verdict::Fail(format!("text has errors as a vertical list but format(text) parses as one\n  text: {}\n  format(text): {}", clip(text, 1200), clip(&f1, 1200))),
+    }
+    known.unwrap_or(Verdict::pass(nontrivial))
+}
+
+// ------------------------------------------------------------------------------------
+// (iv) long and deeply nested texts on an ordinary stack
+//
+// The engine's workers run on 1 GiB stacks, and a stack overflow cannot be caught: it aborts the
+// process. A real caller (`box check`, a test) parses on an 8 MiB main thread. So every probe is run
+// in a child process (this executable, replaying the one case) on a thread with an 8 MiB stack; the
+// child dying is reported as a violation of "arbitrary text yields a list or located errors".
+
+#[derive(Clone, Debug, Serialize, Deserialize)]
+pub struct ScaleCase {
+    pub shape: String,
+    pub prefix: String,
+    /// repeated `times` times
+    pub open: String,
+    pub times: u32,
+    pub middle: String,
+    /// repeated `times` times
+    pub close: String,
+    pub suffix: String,
+}
+
+impl ScaleCase {
+    fn text(&self) -> String {
+        let n = self.times as usize;
+        let mut s = String::with_capacity(self.prefix.len() + n * (self.open.len() + self.close.len()) + self.middle.len() + self.suffix.len());
+        s.push_str(&self.prefix);
+        for _ in 0..n {
+            s.push_str(&self.open);
+        }
+        s.push_str(&self.middle);
+        for _ in 0..n {
+            s.push_str(&self.close);
+        }
+        s.push_str(&self.suffix);
+        s
+    }
+    fn nesting(&self) -> bool {
+        self.open.contains('[') || self.open.contains('(')
+    }
+}
+
+const SCALE_STACK: usize = 8 << 20;
+const SCALE_ENV: &str = "VP_C18_SCALE_INPROC";
+pub const FLAG_DEEP_NESTING: &str = "flag:deep_nesting_overflows_the_stack";
+pub const FLAG_INVALID_RUN: &str = "flag:invalid_character_run_overflows_the_stack";
+
+/// (shape, prefix, open, middle, close, suffix, largest repetition count as a power of ten)
+const SCALE_SHAPES: &[(&str, &str, &str, &str, &str, &str, u32)] = &[
+    ("invalid_char_run", "", "@", "", "", "", 6),
+    ("invalid_non_ascii_run", "", "\u{e9}", "", "", "", 5),
+    ("invalid_chars_inside_call", "kern(", "$", "1pt", "", ")", 5),
+    ("hbox_nest_balanced", "", "hbox(content=[", "chars(\"x\")", "])", "\n", 5),
+    ("hbox_nest_unclosed", "", "hbox(content=[", "", "", "", 5),
+    ("vbox_nest_balanced", "", "vbox(content=[", "kern(1pt)", "])", "\n", 5),
+    ("disc_hbox_nest_balanced", "", "disc(pre_break=[hbox(content=[", "", "])])", "", 4),
+    ("adjust_vbox_nest_balanced", "", "adjust(content=[vbox(content=[hbox(content=[", "", "])])])", "", 4),
+    ("insertion_nest_balanced", "", "insertion(vbox=[", "", "])", "", 5),
+    ("unknown_call_nest_balanced", "", "a(b=[", "", "])", "", 5),
+    ("unknown_call_nest_unclosed", "", "a(b=[", "", "", "", 5),
+    ("positional_list_nest", "", "a([", "", "])", "", 5),
+    ("open_square_run", "", "[", "", "", "", 5),
+    ("open_round_run", "", "(", "", "", "", 5),
+    ("call_open_run", "", "a(", "", "", "", 5),
+    ("close_square_run", "", "]", "", "", "", 6),
+    ("close_round_run", "kern(1pt)", ")", "", "", "", 6),
+    ("mismatched_nest", "", "a(b=[", "", ")]", "", 4),
+    ("unterminated_u_escape_run", "", "\"\\u{", "", "", "", 5),
+    ("bad_escape_run", "chars(\"", "\\a", "", "", "\")", 5),
+    ("empty_comment_lines", "", "#\n", "kern(1pt)", "", "", 5),
+    ("crlf_comment_lines", "", "# c\r\n", "kern(1pt)", "", "", 5),
+    ("one_long_comment_no_newline", "kern(1pt) #", "c", "", "", "", 6),
+    ("comments_inside_call", "glue(", "#c\n", "1pt", "", ")", 5),
+    ("keyword_run", "", "a ", "", "", "", 5),
+    ("missing_value_run", "glue(", "width= ", "", "", ")", 5),
+    ("comma_run", "glue(", ",", "", "", ")", 5),
+    ("too_many_positional", "glue(", "1pt,", "", "", ")", 5),
+    ("long_flat_list", "", "kern(1pt)\n", "", "", "", 5),
+    ("long_flat_list_one_line", "", "glue(1pt, 2fil, 3fill) ", "", "", "", 4),
+    ("long_string", "chars(\"", "a", "", "", "\")\n", 6),
+    ("long_escaped_string", "chars(\"", "\\u{1F600}", "", "", "\")\n", 5),
+    ("long_hlist_in_hbox", "hbox(content=[", "chars(\"ab\", 1) ", "", "", "])\n", 4),
+    ("long_disc_list", "disc(pre_break=[", "chars(\"ab\") kern(1sp) ", "", "", "])\n", 4),
+    ("digit_run", "penalty(", "9", "", "", ")", 6),
+    ("fraction_digit_run", "kern(1.", "0", "", "", "pt)", 6),
+    ("unit_letter_run", "kern(1", "p", "", "", ")", 6),
+    ("blank_lines", "kern(1pt)", "\n\n", "kern(2pt)", "", "\n", 5),
+    ("many_arguments_multiline", "", "hbox(height=1pt, width=2pt, depth=3pt, shift_amount=4pt, glue_order=\"fil\")\n", "", "", "", 4),
+];
+
+/// `all_sizes`: every power of ten from 10^3 up to the shape's cap; otherwise (quick tier) only the largest
+/// one up to 10^5. Texts stay below about 1.5 MB ("sizes a real file could have").
+fn scale_cases(all_sizes: bool) -> Vec<ScaleCase> {
+    let mut v = vec![];
+    for &(shape, prefix, open, middle, close, suffix, cap) in SCALE_SHAPES {
+        let pows: Vec<u32> = (3..=cap).filter(|p| (10usize.pow(*p)) * (open.len() + close.len()) <= 1_500_000).collect();
+        let quick_top = pows.iter().copied().filter(|p| *p <= 5).max();
+        for &pow in &pows {
+            if !all_sizes && Some(pow) != quick_top {
+                continue;
+            }
+            let times = 10u32.pow(pow);
+            v.push(ScaleCase { shape: shape.into(), prefix: prefix.into(), open: open.into(), times, middle: middle.into(), close: close.into(), suffix: suffix.into() });
+        }
+    }
+    v
+}
+
+/// Totality only, for texts nested so deeply that this file's own (recursive) comparisons would need
+/// a big stack: every entry point returns, errors are located, format is idempotent. Results are
+/// leaked rather than dropped (dropping a deeply nested value recurses as well; the child exits anyway).
+fn totality_oracle(ctx: &Ctx, text: &str) -> Verdict {
+    let shown = clip(text, 300);
+    let located = |what: &str, r: Option<Result<(usize, String, Vec<(String, usize)>), String>>| -> Result<bool, Verdict> {
+        match r {
+            None => Ok(true),
+            Some(Ok(_)) => Ok(false),
+            Some(Err(m)) => Err(Verdict::Fail(format!("{what}: {m}\n  text: {shown}"))),
+        }
+    };
+    let h_ok = match guard(ctx, "parse_horizontal_list", &shown, || {
+        let r = lang::parse_horizontal_list(text);
+        let e = r.as_ref().err().map(|e| check_errors(text, e));
+        std::mem::forget(r);
+        e
+    }) {
+        Ok(e) => match located("parse_horizontal_list", e) {
+            Ok(b) => b,
+            Err(v) => return v,
+        },
+        Err(v) => return v,
+    };
+    let _v_ok = match guard(ctx, "parse_vbox_using_cst", &shown, || {
+        let errs: lang::ErrorAccumulator = Default::default();
+        let v = ast::parse_vbox_using_cst(cst::parse(text, errs.clone()), &errs);
+        let e = match errs.check() {
+            Ok(()) => {
+                std::mem::forget(v.to_boxworks());
+                None
+            }
+            Err(e) => Some(check_errors(text, &e)),
+        };
+        std::mem::forget(v);
+        e
+    }) {
+        Ok(e) => match located("parse_vbox_using_cst", e) {
+            Ok(b) => b,
+            Err(v) => return v,
+        },
+        Err(v) => return v,
+    };
+    match guard(ctx, "cst::Tree::build", &shown, || {
+        let errs: lang::ErrorAccumulator = Default::default();
+        let t = cst::Tree::build(cst::parse(text, errs.clone()));
+        std::mem::forget(t);
+        errs.check().err().map(|e| check_errors(text, &e))
+    }) {
+        Ok(e) => {
+            if let Err(v) = located("cst::parse", e) {
+                return v;
+            }
+        }
+        Err(v) => return v,
+    }
+    let f1 = match guard(ctx, "format", &shown, || format_src(text)) {
+        Ok(Parsed::Ok(s)) => s,
+        Ok(Parsed::Errs(..)) => {
+            if h_ok {
+                return Verdict::Fail(format!("format rejects a text that parses\n  text: {shown}"));
+            }
+            return Verdict::pass(true);
+        }
+        Ok(Parsed::Bad(m)) => return Verdict::Fail(format!("format: {m}\n  text: {shown}")),
+        Err(v) => return v,
+    };
+    match guard(ctx, "format∘format", &shown, || format_src(&f1)) {
+        Ok(Parsed::Ok(f2)) => {
+            if f2 != f1 {
+                return Verdict::Fail(format!("format is not idempotent\n  {}\n  text: {shown}", first_diff(&f1, &f2)));
+            }
+        }
+        Ok(_) => return Verdict::Fail(format!("format(text) is rejected by format\n  text: {shown}")),
+        Err(v) => return v,
+    }
+    Verdict::pass(true)
+}
+
+/// Runs inside the child: the whole check of one text on a thread with an ordinary stack.
+fn scale_inproc(ctx: &Ctx, c: &ScaleCase) -> Verdict {
+    let text = c.text();
+    let deep = bracket_depth(&text) > 64;
+    let r = std::thread::scope(|s| {
+        std::thread::Builder::new()
+            .stack_size(SCALE_STACK)
+            .spawn_scoped(s, || {
+                if deep {
+                    totality_oracle(ctx, &text)
+                } else {
+                    let t = TextCase { origin: "scale".into(), text: text.clone() };
+                    text_oracle(ctx, &t, &mut Case::default(), None)
+                }
+            })
+            .expect("spawn 8 MiB thread")
+            .join()
+    });
+    match r {
+        Ok(v) => v,
+        Err(_) => Verdict::Fail(format!("panic escaped on the 8 MiB thread (shape {})", c.shape)),
+    }
+}
+
+/// What became of the child process that checked one scale case.
+pub struct ChildOut {
+    code: Option<i32>,
+    status: String,
+    stdout: String,
+    stderr: String,
+}
+
+/// Hands the case to a child process (this executable, `C18 --replay <file>`, with SCALE_ENV set).
+fn scale_child(ctx: &Ctx, c: &ScaleCase) -> ChildOut {
+    let body = serde_json::json!({"property": "C18", "sub": "scale_probes", "seed": 0, "tier": "quick", "message": "scale probe", "case": c});
+    let text = serde_json::to_string(&body).expect("serialise");
+    let path = std::env::temp_dir().join(format!("vp_c18_scale_{}_{:016x}.json", std::process::id(), fnv64(text.as_bytes())));
+    if let Err(e) = std::fs::write(&path, &text) {
+        eprintln!("C18 scale_probes: cannot write {}: {e}", path.display());
+        std::process::exit(2);
+    }
+    let exe = std::env::current_exe().unwrap_or_else(|e| {
+        eprintln!("C18 scale_probes: current_exe: {e}");
+        std::process::exit(2)
+    });
+    let t0 = std::time::Instant::now();
+    let out = std::process::Command::new(exe)
+        .arg("C18")
+        .arg("--replay")
+        .arg(&path)
+        .env(SCALE_ENV, "1")
+        .env("VP_VERIF_DIR", &ctx.verif_dir)
+        .stdin(std::process::Stdio::null())
+        .output();
+    let _ = std::fs::remove_file(&path);
+    if std::env::var_os("VP_C18_SCALE_TIMING").is_some() {
+        // debugging aid only: never part of a verdict
+        eprintln!("scale {:>8.1} ms  {} x {}", t0.elapsed().as_secs_f64() * 1000.0, c.shape, c.times);
+    }
+    match out {
+        Ok(o) => ChildOut { code: o.status.code(), status: format!("{}", o.status), stdout: String::from_utf8_lossy(&o.stdout).to_string(), stderr: String::from_utf8_lossy(&o.stderr).to_string() },
+        Err(e) => {
+            eprintln!("C18 scale_probes: cannot start the child process: {e}");
+            std::process::exit(2);
+        }
+    }
+}
+
+fn scale_oracle(ctx: &Ctx, c: &ScaleCase, case: &mut Case, precomputed: Option<ChildOut>) -> Verdict {
+    if std::env::var_os(SCALE_ENV).is_some() {
+        return scale_inproc(ctx, c);
+    }
+    let bytes = c.prefix.len() + c.middle.len() + c.suffix.len() + c.times as usize * (c.open.len() + c.close.len());
+    let note = format!("{}: {:?} + {:?} x {} + {:?} + {:?} x {} + {:?} ({} bytes)", c.shape, c.prefix, c.open, c.times, c.middle, c.close, c.times, c.suffix, bytes);
+    case.note = Some(note.clone());
+    case.class(if c.nesting() { "scale_nesting" } else { "scale_flat_run" });
+    case.class_if(c.times >= 1_000, "scale_repeat>=10^3");
+    case.class_if(c.times >= 10_000, "scale_repeat>=10^4");
+    case.class_if(c.times >= 100_000, "scale_repeat>=10^5");
+    case.class_if(c.times >= 1_000_000, "scale_repeat>=10^6");
+    case.class_if(bytes >= 100_000, "scale_bytes>=10^5");
+    case.class_if(bytes >= 1_000_000, "scale_bytes>=10^6");
+    let out = precomputed.unwrap_or_else(|| scale_child(ctx, c));
+    match out.code {
+        Some(0) => {
+            if let Some(l) = out.stdout.lines().find(|l| l.starts_with("KNOWN-FINDING")) {
+                let sig = l.rsplit('[').next().unwrap_or("").trim_end_matches(']').to_string();
+                return Verdict::Known(sig);
+            }
+            Verdict::pass(true)
+        }
+        Some(1) => {
+            let m: String = out.stdout.lines().filter(|l| !l.starts_with("VIOLATION")).collect::<Vec<_>>().join("\n");
+            Verdict::Fail(format!("{} [on a thread with an 8 MiB stack; {note}]", clip(&m, 3000)))
+        }
+        _ => {
+            // killed by a signal (stack overflow: SIGABRT / SIGSEGV) or an unexpected status
+            let overflow = out.stderr.contains("has overflowed its stack") || out.stderr.contains("stack overflow");
+            let flag = if c.nesting() { FLAG_DEEP_NESTING } else { FLAG_INVALID_RUN };
+            if overflow && ctx.known(flag) {
+                return Verdict::Known(flag.into());
+            }
+            let tail: String = out.stderr.lines().rev().take(4).collect::<Vec<_>>().into_iter().rev().collect::<Vec<_>>().join(" | ");
+            Verdict::Fail(format!(
+                "parsing / formatting this text on a thread with an 8 MiB stack kills the process ({}; {}): {}\n  text = {note}",
+                if overflow { "stack overflow, an abort that no caller can catch" } else { "abnormal end" },
+                out.status,
+                clip(&tail, 400),
+            ))
+        }
+    }
 }
 
 // ------------------------------------------------------------------------------------
@@ -2448,21 +3624,50 @@ fn text_oracle(ctx: &Ctx, t: &TextCase, case: &mut Case, expect_ok: Option<bool>
 #[derive(Clone, Debug, Serialize, Deserialize)]
 pub struct GoldenCase {
     pub text: String,
-    pub expect_ok: bool,
+    /// whether the text parses as a horizontal list, where the repository states it
+    #[serde(default)]
+    pub expect_ok: Option<bool>,
     /// the list the text denotes, where the repository's tests / documentation state it
     pub expect: Option<Top>,
 }
 
-/// Texts whose meaning is stated in the repository (doc tests of lang/mod.rs, the parameter
-/// tables of the language specification there, the boxworks-testing doc test).
+/// Texts whose meaning is stated in the repository (doc tests of lang/mod.rs, the type and parameter
+/// tables of the language specification there, the boxworks-testing doc test). Dimensions in units
+/// other than pt are the values TeX gives them (TeX.2021.458), computed by `tex_dimen`.
 fn stated_meanings() -> Vec<(String, Top)> {
     let c = |c: char, font: u32| HNode::Char { c, font };
     let g = |w: i32, st: i32, sto: u8, sh: i32, sho: u8| GlueSpec { w, st, sto, sh, sho };
     let pt = 65536;
+    let hb = |num: i32, den: i32| HNode::HBox(HBoxSpec { h: 0, w: 0, d: 0, shift: 0, num, den, order: 0, list: vec![] });
+    let td = |i: &str, f: &str, u: &str| tex_dimen(i, f, u).expect("in range");
     vec![
         ("chars(\"A\", 1)".into(), Top::H(vec![c('A', 1)])),
         ("chars(font=2, content=\"B\")".into(), Top::H(vec![c('B', 2)])),
         ("chars(\"C\", font=3)".into(), Top::H(vec![c('C', 3)])),
+        // the doc test of lang/mod.rs, whole: 0.075in is Scaled::new(0, [0,7,5], Inch), -0.1pt is -Scaled::new(0, [1], Point)
+        (
+            "\n    # The chars() function typesets characters.\n    chars(\"Box\")\n    # Glue can be added manually.\n    glue(1pt, 5fil, 0.075in)\n    # The following elements illustrate the prototypical example of a kern.\n    chars(\"A\")\n    kern(-0.1pt)\n    chars(\"V\")\n".into(),
+            Top::H(vec![c('B', 0), c('o', 0), c('x', 0), HNode::Glue(g(pt, 5 * pt, 1, td("0", "075", "in"), 0)), c('A', 0), HNode::Kern(-td("0", "1", "pt")), c('V', 0)]),
+        ),
+        // 0.075in = 355207sp and 0.1pt = 6554sp by hand (TeX.2021.102, 458): pins `tex_dimen` itself
+        ("kern(355207sp) kern(-6554sp)".into(), Top::H(vec![HNode::Kern(td("0", "075", "in")), HNode::Kern(-td("0", "1", "pt"))])),
+        // type table: examples of each type
+        ("kern(1pt) kern(2.04in) kern(-10sp)".into(), Top::H(vec![HNode::Kern(pt), HNode::Kern(td("2", "04", "in")), HNode::Kern(-10)])),
+        ("glue(0pt, 1fil, -2fill) glue(0pt, 3filll)".into(), Top::H(vec![HNode::Glue(g(0, pt, 1, -2 * pt, 2)), HNode::Glue(g(0, 3 * pt, 3, 0, 0))])),
+        ("penalty(123) penalty(-456)".into(), Top::H(vec![HNode::Penalty(123), HNode::Penalty(-456)])),
+        ("lig(\"\u{f1}\")".into(), Top::H(vec![HNode::Lig(LigSpec { c: '\u{f1}', font: 0, orig: String::new(), left: false, right: false })])),
+        ("hbox(glue_ratio=\"1.5\") hbox(glue_ratio=\"-0.25\")".into(), Top::H(vec![hb(3 * pt / 2, pt), hb(-pt / 4, pt)])),
+        ("hbox(glue_order=\"normal\") rule(1pt, \"running\")".into(), Top::H(vec![hb(0, 1), HNode::Rule { h: pt, w: RUNNING, d: 0 }])),
+        // "the allowable units are the same as in TeX": 1in = 72.27pt, 1cm = 7227/254 pt, ... (TeX.2021.458; the
+        // sp values are the ones every TeX prints for these dimensions)
+        (
+            "kern(1in) kern(1cm) kern(1pc) kern(1mm) kern(1bp) kern(1dd) kern(1cc)".into(),
+            Top::H(vec![HNode::Kern(4736286), HNode::Kern(1864679), HNode::Kern(786432), HNode::Kern(186467), HNode::Kern(65781), HNode::Kern(70124), HNode::Kern(841489)]),
+        ),
+        // Rust's \u{..} escape: 1-6 hex digits of either case
+        ("chars(\"\\u{1F600}\\u{0041}\\u{e9}\")".into(), Top::H(vec![c('\u{1f600}', 0), c('A', 0), c('\u{e9}', 0)])),
+        // chars adds one Char for each character, in discretionary lists too; none for an empty string
+        ("disc(pre_break=[chars(\"ab\", 3) chars() chars(\"\", 5)])".into(), Top::H(vec![HNode::Disc { pre: vec![DNode::Char { c: 'a', font: 3 }, DNode::Char { c: 'b', font: 3 }], post: vec![], replace: 0 }])),
         // doc test of lang/mod.rs without the inch-valued shrink
         ("chars(\"Box\")\nglue(1pt, 5fil)\nchars(\"A\")\nkern(-0.5pt)\nchars(\"V\")\n".into(), Top::H(vec![c('B', 0), c('o', 0), c('x', 0), HNode::Glue(g(pt, 5 * pt, 1, 0, 0)), c('A', 0), HNode::Kern(-pt / 2), c('V', 0)])),
         // parameter tables: glue(width, stretch, shrink); rule(height, width, depth); lig(char, original_chars, font, ..)
@@ -2488,16 +3693,56 @@ fn stated_meanings() -> Vec<(String, Top)> {
     ]
 }
 
+/// The comment attribution cst.rs pins with its own tests (comment_1 .. comment_10, comment_in_empty_list),
+/// as a calibration of `XTree` and of the renderer's model: (source, comments of f, of arg 1, of arg 2, trailing).
+fn stated_comment_attribution() -> Vec<(&'static str, [&'static [&'static str]; 4])> {
+    vec![
+        ("f(3,key=4,)", [&[], &[], &[], &[]]),
+        ("#X\nf(3,key=4,)", [&["X"], &[], &[], &[]]),
+        ("f#X\n(3,key=4,)", [&["X"], &[], &[], &[]]),
+        ("f(#X\n3,key=4,)", [&[], &["X"], &[], &[]]),
+        ("f(3#X\n,key=4,)", [&[], &["X"], &[], &[]]),
+        ("f(3,#X\nkey=4,)", [&[], &[], &["X"], &[]]),
+        ("f(3,key#X\n=4,)", [&[], &[], &["X"], &[]]),
+        ("f(3,key=#X\n4,)", [&[], &[], &["X"], &[]]),
+        ("f(3,key=4#X\n,)", [&[], &[], &["X"], &[]]),
+        ("f(3,key=4,#X\n)", [&[], &[], &[], &["X"]]),
+        ("f(3,key=4#X\n)", [&[], &[], &["X"], &[]]),
+    ]
+}
+
 fn golden_oracle(ctx: &Ctx, g: &GoldenCase, case: &mut Case) -> Verdict {
     let t = TextCase { origin: "golden".into(), text: g.text.clone() };
-    let v = text_oracle(ctx, &t, case, Some(g.expect_ok));
-    if !matches!(v, Verdict::Pass { .. }) || !g.expect_ok {
+    let v = text_oracle(ctx, &t, case, g.expect_ok);
+    if !matches!(v, Verdict::Pass { .. }) {
         return v;
     }
-    // print what was parsed and read it back (strict)
-    let parsed = match parse_as(ctx, true, &g.text, false) {
+    // the explicit CST of the repository's comment tests
+    for (src, [f, a1, a2, tr]) in stated_comment_attribution() {
+        if g.text != src {
+            continue;
+        }
+        let s = |v: &[&str]| v.iter().map(|x| x.to_string()).collect::<Vec<_>>();
+        let want = XTree {
+            calls: vec![XCall { comments: s(f), name: "f".into(), args: vec![XArg { comments: s(a1), key: None, value: XVal::Int(3) }, XArg { comments: s(a2), key: Some("key".into()), value: XVal::Int(4) }], trailing: s(tr) }],
+            trailing: vec![],
+        };
+        match guard(ctx, "cst::Tree::build", &g.text, || explicit_cst(&g.text)) {
+            Ok((x, _, _, _)) => {
+                if x != want {
+                    return Verdict::Fail(format!("explicit CST of {:?}: {}", g.text, first_diff(&format!("{:?}", want), &format!("{:?}", x))));
+                }
+                case.class("stated_comment_attribution");
+            }
+            Err(v) => return v,
+        }
+    }
+    if g.expect_ok != Some(true) {
+        return v;
+    }
+    let parsed = match parse_as(ctx, true, &g.text) {
         Ok(Ok(p)) => p,
-        Ok(Err(e)) => return Verdict::Fail(e),
+        Ok(Err(e)) => return Verdict::Fail(e.text),
         Err(v) => return v,
     };
     if let Some(want) = &g.expect {
@@ -2508,54 +3753,79 @@ fn golden_oracle(ctx: &Ctx, g: &GoldenCase, case: &mut Case) -> Verdict {
         case.class("stated_meaning");
     }
     let st = Stats::of(&parsed);
-    let tc = TreeCase { profile: "golden".into(), top: parsed };
-    let mut c2 = Case::default();
-    match roundtrip_oracle(ctx, &tc, &mut c2) {
-        Verdict::Pass { .. } => Verdict::pass(st.nontrivial() || st.nodes > 0),
-        other => other,
-    }
+    Verdict::pass(st.nontrivial() || st.nodes > 0)
 }
 
 pub fn run(ctx: &Ctx) {
     run_fuzz_raw(ctx, fuzz_entry);
     ctx.rule(
-        "roundtrip: recursive mirror trees of ds::Horizontal / ds::Vertical / discretionary lists (nesting <= 4, every node kind and field the language has syntax for) printed by three public paths and parsed back, compared with the library's PartialEq and strictly (glue ratios as exact rationals); \
-         format_idempotent: the same trees rendered by an independent styled writer (blank lines, comments, any Unicode whitespace, positional vs keyword, reordered keywords, omitted defaults, omitted commas, sp units, long decimals, \\u{..} escapes); \
-         parser_total: token soups over the language's alphabet, token-level mutations of the repository's Box-language goldens and of generated output, numeric/escape boundary probes. \
-         non-trivial = nesting depth >= 2 or a character that needs an escape (or, for texts, a backslash / non-ASCII character) or a value at a limit (+-(2^30-1), +-(2^31-1), running, font 2^31-1); distinct = by value",
+        "roundtrip: recursive mirror trees of ds::Horizontal / ds::Vertical / discretionary lists (nesting <= 4, every node kind and field the language has syntax for, four value profiles) printed by three public paths and parsed back, compared with the library's PartialEq and strictly (glue ratios as exact rationals); \
+         format_idempotent: the same trees rendered by an independent styled writer (blank lines, comments at every position and as the unterminated last line, CRLF, any Unicode whitespace, positional vs keyword, reordered keywords, omitted defaults, omitted commas, sp and every TeX unit, integer and long decimals, negative glue ratios, \\u{..} escapes of either case, merged and empty chars calls) with the list AND the explicit CST it must yield; \
+         parser_total: token soups over the language's alphabet, token-level mutations of the repository's Box-language goldens and of generated output, numeric/escape boundary probes; every list a text parses to is printed and parsed back; \
+         scale_probes: shapes of long runs and deep nesting (SCALE_SHAPES), 10^3..10^6 repetitions (texts up to ~1 MB), each in a child process on an 8 MiB stack. \
+         non-trivial = nesting depth >= 2 or a character that needs an escape (or, for texts, a backslash / non-ASCII character) or a value at a limit (+-(2^30-1), +-(2^31-1), -2^31, running, font 2^31-1 / 2^31 / 2^32-1); distinct = by value",
     );
     ctx.assume("characters: every Unicode scalar except U+0022 (the property excludes it; the lexer does in fact accept \\\" )");
-    ctx.assume("fonts, replace_count and float_penalty are generated in 0..=2^31-1: ToBoxLang for Vec<ds::Horizontal> converts the font with i32::try_from(..).unwrap() and the other printers use `as i32`; the language's integers are i32");
-    ctx.assume("integers (penalty) are generated in the documented range (-2^31, 2^31): -2^31 has no spelling the lexer accepts (it panics, reported by parser_total)");
+    ctx.assume("fonts, replace_count and float_penalty: the data structure's full u32 range (profile wide_int); values from 2^31 on are the ones the language writes as negative integers (chars(\"a\", -1) parses to font 2^32-1), so they are values the language can express. Styled sources (format_idempotent) write them in 0..=2^31-1 only, where the meaning of the numeral is not in doubt");
+    ctx.assume("integers (penalty): every i32; the documented range is (-2^31, 2^31) and -2147483648 is accepted as well (profile wide_int and numeric probes)");
     ctx.assume("not generated because the language has no syntax for them (convert.rs): whatsits (todo!()), kern kinds other than Normal, glue kinds other than Normal, mark contents (ds::Mark.list is always read back empty), glue_ratio/glue_order of a vbox (ToBoxworks for ast::VBox fills them with defaults), ds::Math carries only before/after");
-    ctx.assume("profile core (80% of trees): finite dimensions in [-(2^30-1), 2^30-1] (the documented TeX range), infinite-order stretch/shrink in [-(2^31-1), 2^31-1] (the lexer's range), glue ratios k/65536 with 0 <= k < 2^24; profile wide (20%): any i32 dimension and any ratio with a non-zero denominator. A failure in the wide profile is excused only by a listed signature");
-    ctx.assume("glue ratio: the language's values are k/65536, |k| <= 2^30-1 (GlueRatio::from_float_str parses the string as a dimension in pt). Such a value must read back exactly; any other ratio must read back as the value a single-precision TeX.2021.186 printer gives, with its sign");
+    ctx.assume("profile core (61% of trees): finite dimensions in [-(2^30-1), 2^30-1] (the documented TeX range), infinite-order stretch/shrink in [-(2^31-1), 2^31-1] (the lexer's range), glue ratios k/65536 with 0 <= k < 2^24; profiles wide_dim / wide_ratio (13% each): any i32 dimension / any ratio with a non-zero denominator. A wide value that no source text can carry (|dimension| >= 16384pt, |ratio| >= 16384) is outside 'every value the language can express': the printed text may then fail to parse, with exactly one 'number too large' / 'wrong type' error per such value and no other error");
+    ctx.assume("glue ratio: the language's values are k/65536, |k| <= 2^30-1 (GlueRatio::from_float_str parses the string as a dimension in pt). A value single precision carries exactly reads back exactly; any other within 2^-17 + 2^-22 relative (TeX.2021.186 prints through a float, no particular arithmetic is demanded); the sign may be lost (TeX.2021.186 prints the magnitude and GlueRatio::eq, the library's equality, ignores it): counted as accepted:*");
     ctx.assume("error location = every label span satisfies start <= end <= len(source) and falls on UTF-8 character boundaries");
+    ctx.assume("dimension spellings are read as TeX reads them (scan_dimen, TeX.2021.448-458, model tex_dimen written from the literate source and pinned by the repository's doc test 0.075in and by 1in=4736286sp .. 1cc=841489sp)");
+    ctx.assume("explicit CST: comment attribution as documented by the field comments of cst::FuncCall / cst::Arg and pinned by the tests comment_0..10 and comment_in_empty_list of cst.rs; for list arguments (three TODO lines there) the same rule is applied by analogy");
+    ctx.assume("format may answer Err for a text that does not parse and Ok for a text with recoverable errors; demanded: it answers Ok for every text that parses, is idempotent, and the text parses to the same list / fails to parse before and after");
+    ctx.assume("scale probes: 'never a panic' includes the stack overflow of an ordinary 8 MiB thread (an abort is worse than a panic); sizes are those of a real file (<= ~1 MB). For nesting deeper than 64 brackets only totality, located errors and idempotence are checked");
 
     // Debugging aid (sensitivity runs): VP_C18_ONLY=<sub> restricts a generating run to one sub-check.
     let only = std::env::var("VP_C18_ONLY").ok();
     let want = |sub: &str| !ctx.is_generate() || only.as_deref().map(|o| o == sub).unwrap_or(true);
 
-    // calibration
-    if want("goldens") {
-        let mut goldens: Vec<GoldenCase> = seeds().into_iter().map(|(text, expect_ok)| GoldenCase { text, expect_ok, expect: None }).collect();
-        goldens.extend(stated_meanings().into_iter().map(|(text, top)| GoldenCase { text, expect_ok: true, expect: Some(top) }));
-        run_list(ctx, "goldens", goldens, |g: &GoldenCase, case| golden_oracle(ctx, g, case));
-    }
-    if want("roundtrip") {
-        let n = ctx.tier.pick(150_000u64, 3_000_000u64);
-        run_generated(ctx, "roundtrip", n, tree_strategy, |t: &TreeCase, case| roundtrip_oracle(ctx, t, case));
-    }
-    if want("format_idempotent") {
-        let n = ctx.tier.pick(60_000u64, 1_000_000u64);
-        run_generated(ctx, "format_idempotent", n, styled_strategy, |c: &StyledCase, case| format_oracle(ctx, c, case));
-    }
-    if want("parser_total") {
-        let n = ctx.tier.pick(300_000u64, 5_000_000u64);
-        run_generated(ctx, "parser_total", n, text_strategy, |t: &TextCase, case| text_oracle(ctx, t, case, None));
+    // The scale probes run in child processes. A generating run starts them first, four at a time, next to
+    // the other sub-checks (run_list would hand the short list to a single worker), and judges the
+    // outcomes at the end.
+    let scale = if want("scale_probes") { scale_cases(ctx.tier.pick(false, true)) } else { vec![] };
+    let pre: Vec<std::sync::Mutex<Option<ChildOut>>> = scale.iter().map(|_| std::sync::Mutex::new(None)).collect();
+    let ahead = ctx.is_generate() && std::env::var_os(SCALE_ENV).is_none() && !scale.is_empty();
+    std::thread::scope(|s| {
+        if ahead {
+            for t in 0..4 {
+                let (scale, pre) = (&scale, &pre);
+                s.spawn(move || {
+                    for i in (t..scale.len()).step_by(4) {
+                        *pre[i].lock().unwrap() = Some(scale_child(ctx, &scale[i]));
+                    }
+                });
+            }
+        }
+        // calibration
+        if want("goldens") {
+            let mut goldens: Vec<GoldenCase> = seeds().into_iter().map(|(text, expect_ok)| GoldenCase { text, expect_ok, expect: None }).collect();
+            goldens.extend(stated_meanings().into_iter().map(|(text, top)| GoldenCase { text, expect_ok: Some(true), expect: Some(top) }));
+            goldens.extend(stated_comment_attribution().into_iter().map(|(text, _)| GoldenCase { text: text.to_string(), expect_ok: Some(false), expect: None }));
+            run_list(ctx, "goldens", goldens, |g: &GoldenCase, case| golden_oracle(ctx, g, case));
+        }
+        if want("roundtrip") {
+            let n = ctx.tier.pick(150_000u64, 3_000_000u64);
+            run_generated(ctx, "roundtrip", n, tree_strategy, |t: &TreeCase, case| roundtrip_oracle(ctx, t, case));
+        }
+        if want("format_idempotent") {
+            let n = ctx.tier.pick(50_000u64, 1_000_000u64);
+            run_generated(ctx, "format_idempotent", n, styled_strategy, |c: &StyledCase, case| format_oracle(ctx, c, case));
+        }
+        if want("parser_total") {
+            let n = ctx.tier.pick(220_000u64, 5_000_000u64);
+            run_generated(ctx, "parser_total", n, text_strategy, |t: &TextCase, case| text_oracle(ctx, t, case, None));
+        }
+    });
+    if want("scale_probes") {
+        let index = |c: &ScaleCase| scale.iter().position(|x| x.shape == c.shape && x.times == c.times);
+        run_list(ctx, "scale_probes", scale.clone(), |c: &ScaleCase, case| {
+            let got = index(c).and_then(|i| pre[i].lock().unwrap().take());
+            scale_oracle(ctx, c, case, got)
+        });
     }
 }
-
 
 /// Entry point shared by the libFuzzer target and the `fuzz_raw` replay sub-check.
 pub fn fuzz_entry(ctx: &Ctx, data: &[u8]) -> Verdict {
